@@ -58,6 +58,22 @@ Fifth round (Gen/PathOps.v; the tables and comments marked `round 5` below) -- t
   * a local variable first assigned inside a loop and read after it (('U', t): reading it while it is unbound is `Raises
     PyUnboundLocalError`, the constructor added to `pyexc`).
 Everything outside these shapes is Untranslatable, as before.
+
+Sixth round (Gen/Fit.v extended: the whole curve fitter; Gen/Clip.v; the tables and comments marked `round 6` below):
+  * checked arithmetic (CHECKED): in the functions of the fitter a `/` whose divisor is neither a non-zero literal nor a variable
+    guarded by the enclosing test (`d != 0`, `d > 0.0`) is `Raises PyZeroDivisionError` on a zero divisor, `math.sqrt(e)` is
+    `Raises PyValueError` below zero unless e is a running maximum of non-negative values (nonneg_running_max); the two earlier
+    definitions that divide unguarded are translated once more under the suffix _zd (ZD_VARIANTS); None as an operand of list `+`
+    is `Raises PyTypeError` (the three constructors added to `pyexc`);
+  * a second budget: 'depth' in EFFECTS -- the function (transitively) calls a method that is a Fixpoint on the number of nested
+    calls still allowed (`depth`), while `fuel` stays the number of iterations every loop invocation may use;
+  * `while True:` loops that are only left by `return` (stmt_while_returning), Python ints as Z throughout a function (ZINT),
+    a literal index l[k] as py_index_Z, `len(X) == 0 or <rest reading X[-1]>`, list literals of fixed shape updated item by item
+    (`C[0][0] += e`) carried through a loop as tuples, `for i in range(0, len(A)): B[i] = f(A[i], B[i])` as zip_update,
+    statement-level calls of classmethods that update an argument in place, a declared result type for a function that may
+    return None (RET_DECL), an `if` some of whose paths return and some fall through, followed by more code, joined through
+    `inl <result> | inr <the variables it assigns>` instead of duplicating the continuation (JOIN_EARLY).
+Everything outside these shapes is Untranslatable, as before.
 """
 import ast, sys, os, hashlib, json
 from fractions import Fraction
@@ -106,13 +122,16 @@ FILE_OF = {'Point': 'Point', 'Line': 'Line', 'QuadraticBezier': 'Quad', 'CubicBe
            'Node': 'Nodelist', 'SegmentRepresentation': 'Nodelist', 'linesweep': 'Sweep',
            'MinimumCurveDistanceFinder': 'MinDist'}
 FILE_ORDER = ['Utils', 'Point', 'Affine', 'BBox', 'Line', 'Quad', 'Cubic', 'Shapes', 'Fit', 'CurveDist', 'Sample', 'Nodelist', 'Sweep', 'Split',
-              'CurveCurve', 'MinDist', 'Winding', 'PathOps']
+              'CurveCurve', 'MinDist', 'Winding', 'PathOps', 'Clip']
 # leaves of the import graph: no other generated file imports them (so adding one leaves the text of the others unchanged)
-LEAF_FILES = {'Shapes', 'Fit', 'Sample', 'Nodelist', 'Sweep', 'Split', 'CurveCurve', 'MinDist', 'Winding', 'PathOps'}
+LEAF_FILES = {'Shapes', 'Fit', 'Sample', 'Nodelist', 'Sweep', 'Split', 'CurveCurve', 'MinDist', 'Winding', 'PathOps', 'Clip'}
 # ... except for the ones named here (the types `outcome` / `pyexc` and the list helpers live in the prelude of Gen/Sample.v)
 EXTRA_DEPS = {'Nodelist': ['Sample'], 'Sweep': ['Sample', 'Nodelist'], 'CurveCurve': ['Sample', 'Split'], 'MinDist': ['Sample'],
               'Winding': ['Sample', 'Nodelist', 'Split', 'CurveCurve'],
-              'PathOps': ['Sample', 'Nodelist', 'Split', 'CurveCurve', 'MinDist']}
+              'PathOps': ['Sample', 'Nodelist', 'Split', 'CurveCurve', 'MinDist'],
+              # round 6: the fitter uses `outcome` (Sample), py_index_Z / the slices by a Z (Nodelist), range_Z / fold_option_outcome (MinDist)
+              'Fit': ['Sample', 'Nodelist', 'MinDist'],
+              'Clip': ['Sample', 'Nodelist', 'Split', 'CurveCurve', 'MinDist', 'Winding', 'PathOps']}
 # methods emitted into another file than the one of the receiver's class (keyed by the DEFINING class)
 FILE_OF_DEFCLASS = {'SampleMixin': 'Sample', 'BooleanOperationsMixin': 'PathOps'}
 # ... or keyed by the method name (the flatteners call the sampling methods, so they live with them)
@@ -123,7 +142,9 @@ FILE_OF_METHOD = {'flatten': 'Sample', 'splitAtPoints': 'Split', 'addExtremes': 
 FILE_OF_CLASS_METHOD = {('BezierPath', 'bounds'): 'Winding',
                         # round 5: the path-level drivers
                         ('BezierPath', 'flatten'): 'PathOps', ('BezierPath', 'distanceToPath'): 'PathOps', ('BezierPath', 'signed_area'): 'PathOps',
-                        ('BezierPath', 'area'): 'PathOps', ('BezierPath', 'direction'): 'PathOps'}
+                        ('BezierPath', 'area'): 'PathOps', ('BezierPath', 'direction'): 'PathOps',
+                        ('BezierPath', 'fromPoints'): 'Fit',      # round 6: the fitter's entry point on a path
+                        ('BezierPath', 'clip'): 'Clip', ('BezierPath', 'union'): 'Clip', ('BezierPath', 'intersection'): 'Clip', ('BezierPath', 'difference'): 'Clip'}
 # modules whose module-level constants are emitted as named definitions (elsewhere they are inlined at the use)
 NAMED_GLOBAL_MODULES = {'path/geometricshapes.py'}
 MODULE_OF_CLASS = {'Point': 'point.py', 'Line': 'line.py', 'QuadraticBezier': 'quadraticbezier.py',
@@ -172,7 +193,9 @@ RECORD_OF_CLASS = {v[0]: k for k, v in RECORDS.items()}
 #       list: the body may update x in place (x.pop(0), x[i] = e) and must not mention d; when it ends the model stores x back
 #       under the key as it was when x was read (d[k0] = x), and x must not be used afterwards
 KEYEQ = {'SEG': '(segment_keyeq O)', 'STR': 'keq',      # round 4: 'STR', the strings an abstract format parameter produces;
-         'P': '(point_keyeq O)'}                          # Points: equal hashes (equal coordinates) and Point.__eq__, see dict_key_P
+         'P': '(point_keyeq O)',                          # Points: equal hashes (equal coordinates) and Point.__eq__, see dict_key_P
+         # round 6: a pair of Points (hash of the tuple: equal when the items' hashes are; == of the tuple: item by item)
+         ('T', ('P', 'P')): '(pair_keyeq (point_keyeq O) (point_keyeq O))'}
 # ---- round 3: the sweep (utils/linesweep.py) ------------------------------------------------------------------------------------
 # ('DQ', t): a collections.deque of t, a Coq list (append at the right end, popleft at the left one).
 # 'SHAPE': an element of the collections handed to bbox_intersections, `shape T := (nat * bbox T)`: an object of which the sweep
@@ -219,12 +242,16 @@ OBJECTS = {'MinimumCurveDistanceFinder': {
 # only translated as the right-hand side of an assignment (the receiver, a local variable, is rebound to the new state)
 STATEFUL = {('MinimumCurveDistanceFinder', 'minDist')}
 RECURSIVE[('MinimumCurveDistanceFinder', 'minDist')] = {'ret': ('T', ('S', 'S', 'S')), 'formats': []}
+# round 6: 'depth': the Fixpoint is on a budget of its own, `depth` (EFFECTS must declare 'depth'), and `fuel` -- when the function also
+# declares 'fuel' -- stays the number of iterations every loop invocation of its callees may use; a recursive call passes `fuel depth_`
+RECURSIVE[('CurveFit', '_fitCurve')] = {'ret': ('O', ('L', 'seg4')), 'formats': [], 'depth': True}
 # 'IXS': an Intersection object together with its attribute seg1, `(segment T * (T * pt T * T))`.  The earlier rounds' 'IX' drops the
 # two segments (nothing read them).  windingNumberOfPoint reads `i.seg1`: while it is translated (IXS_ROOTS) the functions that build
 # Intersections (IXS_FUNCTIONS) are translated once more, into Gen/Winding.v under the suffix _ixs, with Intersection(..) as an 'IXS'.
 # round 5: getSelfIntersections hands the Intersection objects themselves to its caller: they keep both segments ('IXSS'); the functions
 # that build them are translated a third time, into Gen/PathOps.v under the suffix _ixss (the curve-curve ones too: these carry effects).
-IXS_ROOTS = {('BezierPath', 'windingNumberOfPoint'): 'ixs', ('BezierPath', 'getSelfIntersections'): 'ixss'}
+IXS_ROOTS = {('BezierPath', 'windingNumberOfPoint'): 'ixs', ('BezierPath', 'getSelfIntersections'): 'ixss',
+             ('BezierPath', 'clip'): 'ixss'}      # round 6: clip reads i.seg1, i.seg2
 IXS_FUNCTIONS = {'ixs': {'intersections', '_curve_line_intersections', '_line_line_intersections'},
                  'ixss': {'intersections', '_curve_line_intersections', '_line_line_intersections', '_curve_curve_intersections'}}
 IXS_FILE = {'ixs': 'Winding', 'ixss': 'PathOps'}
@@ -246,6 +273,46 @@ JOIN_EFFECTS = {('QuadraticBezier', '_curve_curve_intersections_t'), ('CubicBezi
 # 'IXSS': an Intersection object with both its segments, `(segment T * segment T * (T * pt T * T))` (seg1, seg2, (t1, point, t2)); see IXS_ROOTS.
 # ('U', t): a local variable that is first assigned inside a loop and read after it: None while it is unbound.  Reading it (and
 #   nothing else) unwraps it: `Raises PyUnboundLocalError` on None (FunTx.read_unbound).
+# ---- round 6: the curve fitter (utils/curvefitter.py) and the Boolean-operation glue (utils/booleanoperationsmixin.py) ----------------------
+_FITTER = ('fitCurve', 'fitLine', '_leftTangent', '_rightTangent', 'centerTangent', 'leftTangent', 'rightTangent', 'generateBezier',
+           'estimateLengths', 'newtonRaphsonFind', 'reparameterize', 'computeMaxError', '_fitCurve')
+# CHECKED: functions translated with checked arithmetic.  Python raises ZeroDivisionError on `a / d` with d == 0 (float or int) and
+#   ValueError on math.sqrt(x) with x < 0; elsewhere in Gen both are total (dvd, sqrt_).  In these functions `a / d` is the total dvd only
+#   when d is a non-zero literal, or a local variable bound exactly once and the division stands in the true branch of an enclosing
+#   `if d != 0[.0]` / `if d > 0.0` / `if 0.0 < d` (guarded_divisor); any other division first tests `eqb O d (ofZ O 0)`.  math.sqrt(x) is
+#   the total sqrt_ only when x is a local variable that is a running maximum of non-negative values (nonneg_running_max); any other
+#   first tests `ltb O x (ofZ O 0)`.  (Calls into the earlier definitions -- Point.distanceFrom, toUnitVector, .. -- keep their total reading.)
+CHECKED = {('CurveFit', n) for n in _FITTER}
+# ZD_VARIANTS: earlier definitions that divide unguarded; called from a CHECKED function they are translated once more, checked, under
+#   the suffix _zd (the plain definitions of rounds 1-5 keep their text and their bridges)
+ZD_VARIANTS = {('CurveFit', 'computeHook'), ('CurveFit', 'chordLengthParameterize')}
+# ZINT: functions in which every Python int is a Z: len(l) meets ints as `Z.of_nat (length l)`, a loop variable initialised with an int
+#   literal is a Z (a float once the body assigns it one), range() of ints is range_Z
+ZINT = {('CurveFit', n) for n in _FITTER} | {('BezierPath', 'fromPoints')} | {('BezierPath', n) for n in ('clip', 'union', 'intersection', 'difference')}
+# RET_DECL: the declared result type of a function with effects that may return None (checked against every `return`); for the
+#   self-recursive ones it is RECURSIVE[..]['ret']
+RET_DECL = {('CurveFit', 'fitCurve'): ('O', ('L', 'seg4'))}
+# JOIN_EARLY: functions in which an `if` that neither always returns nor never returns, followed by more code, is translated as
+#       match (if c then A else B) with .. | Some (Returns (inl r)) => Some (Returns r) | Some (Returns (inr <assigned variables>)) => <the rest> end
+#   (A, B end in `inl <the value returned>` where they return and in `inr (..)` where they fall through) instead of continuing each
+#   branch by a copy of the rest
+JOIN_EARLY = {('CurveFit', '_fitCurve')}
+# the Boolean-operation glue.  `pyclipper` is an ABSTRACT PARAMETER of the generated definitions, exactly as in Hand/Clip.v:
+#     toZ     : T -> option Z                         pyclipper's int() conversion of a coordinate (None: it raises)
+#     clipper : clip_type -> list (list (Z * Z)) -> list (list (Z * Z)) -> option (list (list (Z * Z)))
+#                                                     Execute(cliptype, PFT_EVENODD, PFT_EVENODD) on (subject paths, clip paths) (None: ClipperException)
+# Only these uses of the module are translated (anything else is Untranslatable): `pc = pyclipper.Pyclipper()` (a local variable, bound once);
+# `pc.AddPath(<list of coordinate pairs>, pyclipper.PT_CLIP | pyclipper.PT_SUBJECT, True)` as a statement; `pc.Execute(<cliptype>,
+# pyclipper.PFT_EVENODD, pyclipper.PFT_EVENODD)`; the constants pyclipper.CT_INTERSECTION / CT_UNION / CT_DIFFERENCE / CT_XOR ('CT': clip_type).
+# ('PC', subject paths, clip paths): the Pyclipper object, known by the paths added so far (translation-time structure).  The coordinates
+# are converted (toZ, `Raises PyConvertError`) where Execute runs -- subject paths first, as Hand/Clip.v does -- and a None of clipper is
+# `Raises PyClipperError` (the two constructors added to `pyexc`).
+CLIP_FUNS = {('BezierPath', n) for n in ('clip', 'union', 'intersection', 'difference')}
+PYCLIPPER_CT = {'CT_INTERSECTION': 'Ct_intersection', 'CT_UNION': 'Ct_union', 'CT_DIFFERENCE': 'Ct_difference', 'CT_XOR': 'Ct_xor'}
+ROUND6 = CHECKED | CLIP_FUNS      # functions in which the idioms of this round are recognised
+# the element type of a list that starts as `[]` and is filled in a loop, where the inference from the first `.append(<e>)` does not reach
+# (e depends on variables bound in the loop body): DECLARED here; Coq checks the claim when the definition is compiled
+ACC_TYPES = {(('BezierPath', 'clip'), 'newpath'): ('L', 'SEG')}
 def obj_type(cls, abs_texts): return ('OBJ', cls, tuple(abs_texts))
 def obj_state_type(cls): return ('T', tuple(t for _, t in OBJECTS[cls]['state'])) if len(OBJECTS[cls]['state']) > 1 else OBJECTS[cls]['state'][0][1]
 def abs_coqty(a):
@@ -294,6 +361,7 @@ def coqty(t):
     if t == 'SHAPE': return 'shape T'
     if t == 'UNIT': return 'unit'
     if t == 'STR': return 'K'
+    if t == 'CT': return 'clip_type'      # round 6
     if isinstance(t, tuple):
         if t[0] == 'RNG' and t[1] in ('seg3', 'seg4'): return f'ranged ({coqty(t[1])}) T'
         if t[0] == 'OBJ': return coqty(obj_state_type(t[1]))
@@ -384,10 +452,12 @@ for _c in ('QuadraticBezier', 'CubicBezier'):      # round 4: the other curve, w
     ARG_CLASSES[(_c, '_curve_curve_intersections')] = ('seg3', 'seg4')
 for _c in ('Line', 'QuadraticBezier', 'CubicBezier'):
     ARG_CLASSES[(_c, 'intersections')] = ('seg2', 'seg3', 'seg4')
+    ARG_CLASSES[(_c, '__eq__')] = ('seg2', 'seg3', 'seg4')      # round 6: Segment.__eq__, specialised on the class of the other segment
 ARG_CLASSES[('mod:utils/curvedistance.py', 'curveDistance')] = ('seg2', 'seg3', 'seg4')
 UNSET_BOX = {'bl': None, 'tr': None}
 # methods that return None and update one of their ARGUMENTS in place: translated as functions returning the new value of it
-MUTATED_PARAM = {('CurveFit', 'estimateBi'): 'bez', ('mod:utils/linesweep.py', 'dequefilter'): 'deck'}
+MUTATED_PARAM = {('CurveFit', 'estimateBi'): 'bez', ('mod:utils/linesweep.py', 'dequefilter'): 'deck',
+                 ('CurveFit', 'reparameterize'): 'params'}      # round 6 (with effects: the new value of the parameter is the result)
 
 # signature table: argument types of methods (self excluded).  Return types are inferred.
 SIG = {
@@ -431,6 +501,21 @@ SIG = {
     ('BezierPath', 'windingNumberOfPoint'): ['P'], ('BezierPath', 'pointIsInside'): ['P'],
     # round 5 -- path/__init__.py: the other path as the list of its segments; `samples` a number
     ('BezierPath', 'flatten'): ['S'], ('BezierPath', 'distanceToPath'): ['PATH', 'S'],
+    # round 6 -- utils/curvefitter.py: tangents are Optional Points (None / a Point, told apart by truthiness and `is None`), budgets and indices ints
+    ('Point', '__matmul__'): ['P'],
+    ('CurveFit', 'fitCurve'): [('L', 'P'), 'S', 'S', 'Z'], ('CurveFit', 'fitLine'): [('L', 'P'), ('O', 'P'), ('O', 'P')],
+    ('CurveFit', '_leftTangent'): [('L', 'P')], ('CurveFit', '_rightTangent'): [('L', 'P')], ('CurveFit', 'centerTangent'): [('L', 'P'), 'Z'],
+    ('CurveFit', 'leftTangent'): [('L', 'P'), 'S'], ('CurveFit', 'rightTangent'): [('L', 'P'), 'S'],
+    ('CurveFit', 'generateBezier'): [('L', 'P'), ('L', 'S'), ('O', 'P'), ('O', 'P'), 'S'],
+    ('CurveFit', 'estimateLengths'): [('L', 'P'), ('L', 'S'), 'P', 'P'],
+    ('CurveFit', 'newtonRaphsonFind'): ['seg4', 'P', 'S'], ('CurveFit', 'reparameterize'): ['seg4', ('L', 'P'), ('L', 'S')],
+    ('CurveFit', 'computeMaxError'): ['seg4', ('L', 'P'), ('L', 'S'), 'S', 'S'],
+    ('CurveFit', '_fitCurve'): [('L', 'P'), ('O', 'P'), ('O', 'P'), 'S', 'S', 'Z'],
+    ('BezierPath', 'fromPoints'): [('L', 'P'), 'S', 'S', 'Z'],
+    # round 6 -- utils/booleanoperationsmixin.py: the other path as the list of its segments, the operation, the flag `flat`
+    ('BezierPath', 'clip'): ['PATH', 'CT', 'B'], ('BezierPath', 'union'): ['PATH', 'B'], ('BezierPath', 'intersection'): ['PATH', 'B'],
+    ('BezierPath', 'difference'): ['PATH', 'B'],
+    ('*seg', '__eq__'): ['A'],
 }
 # effect table: what a function can do besides returning a value.  'fuel': it contains a data-dependent `while` loop (or calls
 # such a function): the definition takes `fuel : nat` first -- the number of iterations every loop invocation may use -- and
@@ -460,6 +545,17 @@ EFFECTS = {
     # AssertionError; the sampling loops, the recursion of minDist, ValueError of min([]), UnboundLocalError of closestPair
     ('BezierPath', 'flatten'): {'fuel', 'exc'}, ('BezierPath', 'getSelfIntersections'): {'fuel', 'exc'}, ('BezierPath', 'distanceToPath'): {'fuel', 'exc'},
     ('BezierPath', 'signed_area'): {'fuel', 'exc'}, ('BezierPath', 'area'): {'fuel', 'exc'}, ('BezierPath', 'direction'): {'fuel', 'exc'},
+    # round 6 -- the fitter: IndexError of data[k], ZeroDivisionError / ValueError of the checked arithmetic (CHECKED), TypeError of None + list;
+    # 'fuel': the `while True` loops of leftTangent / rightTangent / newtonRaphsonFind; 'depth': the recursion of _fitCurve
+    ('CurveFit', 'fitLine'): {'exc'}, ('CurveFit', '_leftTangent'): {'exc'}, ('CurveFit', '_rightTangent'): {'exc'}, ('CurveFit', 'centerTangent'): {'exc'},
+    ('CurveFit', 'leftTangent'): {'fuel', 'exc'}, ('CurveFit', 'rightTangent'): {'fuel', 'exc'}, ('CurveFit', 'estimateLengths'): {'exc'},
+    ('CurveFit', 'generateBezier'): {'fuel', 'exc'}, ('CurveFit', 'newtonRaphsonFind'): {'fuel'}, ('CurveFit', 'reparameterize'): {'fuel', 'exc'},
+    ('CurveFit', 'computeMaxError'): {'exc'}, ('CurveFit', '_fitCurve'): {'fuel', 'depth', 'exc'}, ('CurveFit', 'fitCurve'): {'fuel', 'depth', 'exc'},
+    ('BezierPath', 'fromPoints'): {'fuel', 'depth', 'exc'},
+    # round 6 -- the glue around pyclipper: the curve-curve recursion, the loops of splitAtPoints and of the flatteners; AssertionError, IndexError
+    # of rSamples[-1] / p[0], the conversion of a coordinate, ClipperException
+    ('BezierPath', 'clip'): {'fuel', 'exc'}, ('BezierPath', 'union'): {'fuel', 'exc'}, ('BezierPath', 'intersection'): {'fuel', 'exc'},
+    ('BezierPath', 'difference'): {'fuel', 'exc'},
 }
 # 'EDGE': a Line together with its `_orig` attribute, `(seg2 T * option (segment T))`: Some c when `line._orig = c` has been
 # executed on it, None for a Line that was never tagged (reading the attribute would be an AttributeError; nothing reads it).
@@ -473,7 +569,8 @@ SELF_TY = {('Line', 'flatten'): 'EDGE',
            ('BezierPath', 'direction'): ('PATHC', 'TSEG')}
 
 
-def effects_of(cls, name, consts=()):
+def effects_of(cls, name, consts=(), variant=None):
+    if variant == 'zd': return frozenset(effects_of(cls, name, consts) | {'exc'})      # round 6: the checked variant may raise ZeroDivisionError
     if name == 'intersections' and cls in ('Line', 'QuadraticBezier', 'CubicBezier'):
         # round 4: the dispatch reaches the curve-curve recursion iff both operands are curves
         curved = cls != 'Line' and len(consts) == 1 and consts[0][0] == 'ty' and consts[0][1] in ('seg3', 'seg4')
@@ -486,7 +583,7 @@ def effects_of(cls, name, consts=()):
 def mtype(eff, t):
     """the result type of a function with effects `eff` returning t"""
     if 'exc' in eff: t = ('X', t)
-    if 'fuel' in eff: t = ('F', t)
+    if 'fuel' in eff or 'depth' in eff: t = ('F', t)
     return t
 
 
@@ -499,7 +596,7 @@ def is_mtype(t):
 CLASSMETHODS = {('Point', 'fromAngle'), ('AffineTransformation', 'translation'), ('AffineTransformation', 'scaling'),
                 ('AffineTransformation', 'reflection'), ('AffineTransformation', 'rotation'),
                 ('CurveFit', 'computeHook'), ('CurveFit', 'estimateBi'), ('CurveFit', 'chordLengthParameterize'),
-                ('SegmentRepresentation', 'fromNodelist')}
+                ('SegmentRepresentation', 'fromNodelist')} | {('CurveFit', n) for n in _FITTER} | {('BezierPath', 'fromPoints')}      # round 6
 
 
 def sig_of(cls, name, nargs):
@@ -667,6 +764,8 @@ class Translator:
         self.rec_used = set()
         self.extras = {}      # coqname -> the formats ("%.2f") whose abstract parameters (fmt_2f, keq) the definition takes after O
         self.ixs_mode = False # round 4: inside an IXS_ROOTS function: Intersection objects keep their seg1 ('IXS': 'ixs') / both segments ('IXSS': 'ixss')
+        self.zd_mode = False  # round 6: inside a CHECKED function: the ZD_VARIANTS are called in their checked variant (_zd)
+        self.pyclip = set()   # round 6: the definitions that take the abstract parameters toZ / clipper (pyclipper)
 
     # ------------------------------------------------------------------ helpers
     def fresh(self, base):
@@ -819,6 +918,7 @@ class Translator:
         """translate method `name` for receiver class `cls` (or module function when cls startswith 'mod:')"""
         key = (cls, name, consts)
         if self.ixs_mode and name in IXS_FUNCTIONS[self.ixs_mode]: key = (cls, name, consts, self.ixs_mode)
+        if self.zd_mode and (cls, name) in ZD_VARIANTS: key = (cls, name, consts, 'zd')      # round 6
         if key in self.done: return self.done[key]
         if key in self.inprogress:
             if key in self.rec_info:        # a declared self-recursive function calling itself (callfun checks who is calling)
@@ -828,12 +928,15 @@ class Translator:
         self.inprogress.add(key)
         saved_cands = (self.fn_cands, self.cell_cands)
         saved_ixs = self.ixs_mode
+        saved_zd = self.zd_mode
         if (cls, name) in IXS_ROOTS: self.ixs_mode = IXS_ROOTS[(cls, name)]
+        self.zd_mode = (cls, name) in CHECKED or (len(key) == 4 and key[3] == 'zd')
         try:
             return self.function_(cls, name, consts, key)
         finally:
             # (also when the translation fails: a caller may catch the failure and translate the call site another way)
             self.ixs_mode = saved_ixs
+            self.zd_mode = saved_zd
             self.fn_cands, self.cell_cands = saved_cands
             self.inprogress.discard(key)
             self.rec_info.pop(key, None)
@@ -861,12 +964,16 @@ class Translator:
         if is_cm != ('classmethod' in decorators(fd)): raise Untranslatable(f'{cls}.{name}: classmethod table and @classmethod decorator disagree')
         env = {}
         coqparams = []
-        eff = effects_of(cls, name, consts)
+        variant = key[3] if len(key) == 4 else None
+        zd = variant == 'zd'
+        eff = effects_of(cls, name, consts, 'zd' if zd else None)
         rec = RECURSIVE.get((cls, name))
-        if rec is not None and 'fuel' not in eff: raise Untranslatable(f'{cls}.{name}: a recursive function must be declared to use fuel (EFFECTS)')
+        by_depth = rec is not None and rec.get('depth', False)      # round 6
+        if rec is not None and ('depth' if by_depth else 'fuel') not in eff: raise Untranslatable(f'{cls}.{name}: a recursive function must be declared to use fuel (EFFECTS)')
         if selfty is not None and cls in OBJECTS:
             coqparams += [f'({a[2]} : {abs_coqty(a)})' for a in OBJECTS[cls]['abstract']]
         if 'fuel' in eff: coqparams.append('(fuel : nat)')
+        if 'depth' in eff: coqparams.append('(depth : nat)')
         if selfty is not None:
             if is_cm:
                 env[params[0]] = Val('K', const=('class', cls))
@@ -900,14 +1007,20 @@ class Translator:
                 env[pn] = Val(ty, 'v_' + pn)
                 coqparams.append(f'(v_{pn} : {coqty(ty)})')
         cname += suffix
-        ixs = key[3] if len(key) == 4 else False
+        ixs = variant if variant in ('ixs', 'ixss') else False
+        if zd: cname += '_zd'
         if ixs:
             if eff and ixs == 'ixs': raise Untranslatable(f'{cls}.{name}: no variant with Intersection.seg1 for a function with effects')
             cname += '_' + ixs; file = IXS_FILE[ixs]
         fd, cells, lfuns = prepare_closures(fd, path)
         self.fn_cands, self.cell_cands = tuple(lfuns), tuple(cells)
         fx = FunTx(self, path, cls if selfty else None, fd)
-        fx.effects, fx.cname, fx.file = eff, cname, file
+        fx.effects, fx.cname, fx.file = teff(eff), cname, file
+        fx.declared = frozenset(eff)
+        fx.checked = zd or (cls, name) in CHECKED      # round 6
+        fx.zint = (cls, name) in ZINT
+        fx.join_early = (cls, name) in JOIN_EARLY
+        fx.key = (cls, name)
         fx.cells = tuple(cells)
         fx.closure_params = getattr(fd, '_closure_params', set())
         fx.join_effects = (cls, name) in JOIN_EFFECTS
@@ -921,10 +1034,12 @@ class Translator:
             if stateful: rec['ret'] = ('T', (rec['ret'], selfty))          # (value, new state of the receiver)
             self.rec_info[key] = (cname, mtype(eff, rec['ret']), file)
             self.extras[cname] = list(rec['formats'])
-            fx.fuel_names = ['fuel_']
+            fx.ret_type = rec['value']
+            if by_depth: fx.depth_name = 'depth_'      # round 6: the loops of the callees keep running on `fuel`
+            else: fx.fuel_names = ['fuel_']
             fx.recursive = True
         mut = (cls, name) in MUTATORS
-        if eff and (((cls, name) in MUTATED_PARAM and eff != {'exc'}) or (cls, name) in OPT_SELF): raise Untranslatable(f'{cls}.{name}: a mutator with effects')
+        if eff and (((cls, name) in MUTATED_PARAM and eff != {'exc'} and (cls, name) not in CHECKED) or (cls, name) in OPT_SELF): raise Untranslatable(f'{cls}.{name}: a mutator with effects')
         if (cls, name) in MUTATED_PARAM:
             mp = MUTATED_PARAM[(cls, name)]
             if mp not in env: raise Untranslatable(f'{cls}.{name}: no parameter {mp}')
@@ -944,6 +1059,11 @@ class Translator:
             def ret(v, e):      # every result as the declared type
                 val = Val(rec['value'], fx.as_type(v, rec['value'], fd))
                 return fx.mreturn(Val('TUP', items=[val, e[params[0]]]) if stateful else val)
+        elif eff and (cls, name) in RET_DECL:
+            fx.ret_type = RET_DECL[(cls, name)]
+            # round 6: every result (a `return` without value and the end of the body included) as the declared type
+            ret = lambda v, e: fx.mreturn(Val(RET_DECL[(cls, name)], fx.as_type(v, RET_DECL[(cls, name)], fd)))
+            cont = lambda e: ret(Val('K', const=None), e)
         elif eff:
             cont = lambda e: Val('K', const=None)
             ret = lambda v, e: fx.mreturn(v)
@@ -975,7 +1095,7 @@ class Translator:
         rty = self.rtype(body) if not (body.ty == 'K' and body.const is None) else None
         if rty is None: raise Untranslatable(f'{cls}.{name} returns None')
         if eff:
-            if is_mtype(rty) is None or is_mtype(rty)[0] != set(eff): raise Untranslatable(f'{cls}.{name}: result {rty!r} does not carry the declared effects {sorted(eff)}')
+            if is_mtype(rty) is None or is_mtype(rty)[0] != set(teff(eff)): raise Untranslatable(f'{cls}.{name}: result {rty!r} does not carry the declared effects {sorted(eff)}')
             if fx.pending: raise Untranslatable(f'{cls}.{name}: unflushed effects')
             for e_ in eff:
                 if e_ not in fx.occurred: raise Untranslatable(f'{cls}.{name}: declared effect {e_!r} never occurs')
@@ -987,12 +1107,16 @@ class Translator:
             if key not in self.rec_used: raise Untranslatable(f'{cls}.{name}: declared recursive (RECURSIVE) but never calls itself')
             if tmatch(rty, mtype(eff, rec['ret'])) is None: raise Untranslatable(f'{cls}.{name}: result {rty!r}, declared {mtype(eff, rec["ret"])!r} (RECURSIVE)')
             fmts = list(rec['formats']); rty = mtype(eff, rec['ret'])
+        if fx.uses_pyclipper:      # round 6: after the format parameters
+            self.pyclip.add(cname)
+            coqparams.insert(0, '(toZ : T -> option Z) (clipper : clip_type -> list (list (Z * Z)) -> list (list (Z * Z)) -> option (list (list (Z * Z))))')
         if fmts:
             self.extras[cname] = fmts
             coqparams.insert(0, '{K : Type} ' + ' '.join(f'({fmt_param(f)} : T -> K)' for f in fmts) + ' (keq : K -> K -> bool)')
         if rec is not None:
-            self.out[file].append(src + f'Fixpoint {cname} {{T : Type}} (O : Ops T) {" ".join(coqparams)} {{struct fuel}} : {coqty(rty)} :=\n'
-                                        f'  match fuel with\n  | Datatypes.O => None\n  | S fuel_ =>\n  {text}\n  end.\n')
+            fl = 'depth' if by_depth else 'fuel'
+            self.out[file].append(src + f'Fixpoint {cname} {{T : Type}} (O : Ops T) {" ".join(coqparams)} {{struct {fl}}} : {coqty(rty)} :=\n'
+                                        f'  match {fl} with\n  | Datatypes.O => None\n  | S {fl}_ =>\n  {text}\n  end.\n')
         else:
             self.out[file].append(src + f'Definition {cname} {{T : Type}} (O : Ops T) {" ".join(coqparams)} : {coqty(rty)} :=\n  {text}.\n')
         self.done[key] = (cname, rty, file)
@@ -1005,10 +1129,13 @@ RET = {('Line', 'findExtremes'): ('L', 'S')}
 RET_REFINE = {('QuadraticBezier', '_curve_line_intersections'): ('L', 'IX'), ('CubicBezier', '_curve_line_intersections'): ('L', 'IX')}
 # round 4: immutable library values computed at translation time, Val('K', const=('py', obj)): the constructors, methods without
 # arguments and int attributes that may be applied to them (Decimal(str(precision)).as_tuple().exponent)
-RANGE_Z_FILES = {'MinDist', 'PathOps'}     # round 4: the generated files whose prelude has range_Z (round 5: or that import it)
+RANGE_Z_FILES = {'MinDist', 'PathOps', 'Fit', 'Clip'}     # round 4: the generated files whose prelude has range_Z (round 5: or that import it)
 PY_PURE_METHODS = {('Decimal', 'as_tuple')}
 PY_PURE_ATTRS = {('DecimalTuple', 'exponent')}
 PYEXC = {'ValueError': 'PyValueError', 'IndexError': 'PyIndexError'}
+def teff(eff):
+    """round 6: the effects a result TYPE carries: running out of `depth` is None, like running out of `fuel`"""
+    return frozenset('fuel' if e == 'depth' else e for e in eff)
 
 
 def fmt_param(fmt):
@@ -1115,6 +1242,17 @@ class FunTx:
         self.ixs = False             # round 4: Intersection(..) as an 'IXS' (with seg1)
         self.unbound_memo = {}       # round 5: per statement: possibly-unbound variable -> (its text, the value a read of it found)
         self.local_imports = {}      # round 5: names bound by a function-level `from beziers.. import f` -> module path
+        # round 6
+        self.declared = frozenset()  # the declared effects ('depth' included; self.effects has 'fuel' for it: what the result type carries)
+        self.depth_name = 'depth'    # name of the recursion budget in the current context
+        self.checked = False         # CHECKED: checked arithmetic
+        self.zint = False            # ZINT: Python ints as Z
+        self.join_early = False      # JOIN_EARLY
+        self.mreturn_tag = None      # 'inl' while a `return` inside a branch joined with early returns is translated
+        self.ret_type = None         # the declared type of the value returned (RECURSIVE / RET_DECL)
+        self.uses_pyclipper = False  # the definition takes the abstract parameters toZ / clipper
+        self.key = None
+        self.parents = None          # child ast node -> parent, of the function being translated (built on demand)
 
     def fresh(self, base):
         self.counter += 1
@@ -1169,6 +1307,8 @@ class FunTx:
             if n.id in self.localfuns: return Val('K', const=('localfun', n.id))
             g = self.global_const(n.id, n)
             if g is not None: return g
+            if n.id in self.local_imports and MODULE_OF_CLASS.get(n.id) == self.local_imports[n.id] and n.id in MRO:
+                return Val('K', const=('class', n.id))       # round 6: a class imported at function level from its own module
             if n.id in ('Point', 'Line', 'QuadraticBezier', 'CubicBezier', 'AffineTransformation'):
                 return Val('K', const=('class', n.id))
             if n.id == 'BezierPath' and (imports_name(self.path, 'BezierPath', 'beziers.path') or self.names_class('BezierPath')):      # (round 5: or inside its own module)
@@ -1204,6 +1344,24 @@ class FunTx:
                 e2, pat = self.items_view(X, k, env)
                 r = self.conj(self.purely(lambda: [self.truth(self.expr(v, e2), n) for v in n.values[1:]]), 'andb')
                 return Val('B', f'(match {env[X].tx} with {pat} => {self.tr.text(r)} | _ => false end)')
+            if isinstance(n.op, ast.Or) and len(n.values) == 2 and self.key in CLIP_FUNS:
+                # round 6: `X or Y` as a VALUE, X an Optional segment (line._orig): X when it is a segment (always truthy: Segment.__len__ is the
+                # number of points, no __bool__), else Y
+                a0 = self.expr(n.values[0], env)
+                if a0.ty == ('O', 'SEG') and a0.tx is not None:
+                    for t_ in SEGN: self.always_truthy(t_, n)
+                    b0 = self.purely(lambda: self.expr(n.values[1], env))
+                    z = self.fresh('z')
+                    return Val('SEG', f'(match {a0.tx} with Some {z} => {z} | None => {self.as_type(b0, "SEG", n)} end)')
+            if isinstance(n.op, ast.Or) and len(n.values) > 1 and self.key in ROUND6:
+                # round 6: `len(X) == 0 or <rest>`: <rest> is evaluated only when X is not empty, and may read X[-1] (nothing else of X)
+                lz = self.list_test(n.values[0], env)
+                if lz is not None and lz[1] and env[lz[0]].ty[1] != '?':
+                    X = lz[0]
+                    z = self.fresh('z')
+                    e2 = dict(env); e2[X] = Val(env[X].ty, env[X].tx, const=('lastis', z))
+                    r = self.conj(self.purely(lambda: [self.truth(self.expr(v, e2), n) for v in n.values[1:]]), 'orb')
+                    return Val('B', f'(match last_error {env[X].tx} with None => true | Some {z} => {self.tr.text(r)} end)')
             nr = self.narrow_boolop(n, env)
             if nr is not None: return nr
             first = self.truth(self.expr(n.values[0], env), n)
@@ -1425,6 +1583,18 @@ class FunTx:
             except Untranslatable as e: self.fail(str(e), n)
             self.formats.add(a.const)
             return Val('STR', f'({f} {b.tx})')
+        if op == 'Add' and self.key in CHECKED and any(self.is_optlist(x) for x in (a, b)) and all(self.is_optlist(x) or self.is_list(x) for x in (a, b)):
+            # round 6: list + list where an operand may be None: both operands are evaluated, then None is a TypeError
+            return self.list_concat(a, b, n)
+        if op == 'Add' and self.key in CLIP_FUNS and isinstance(a.ty, tuple) and a.ty[0] == 'L' and a.ty[1] != '?' and a.tx is not None and b.ty == 'FL' and b.items \
+                and all(tmatch(tr.rtype(i), a.ty[1]) is not None for i in b.items):
+            # round 6: <list> + [<items>]: a fresh list, known to be non-empty
+            return Val(a.ty, f'({a.tx} ++ {tr.text(b)})', const=('nonempty',))
+        if self.zint and op in ('Add', 'Sub', 'Mult') and 'LEN' in (a.ty, b.ty) and a.ty in ('Z', 'I', 'LEN') and b.ty in ('Z', 'I', 'LEN'):
+            # round 6 (ZINT): len(l) meeting ints is an int
+            return Val('Z', f'({self.Zt(a)} {dict(Add="+", Sub="-", Mult="*")[op]} {self.Zt(b)})%Z')
+        if self.checked and op == 'Div' and (num(b) or (isinstance(b.ty, tuple) and b.ty[0] == 'O')) and not (a.ty == 'I' and b.ty == 'I'):
+            b = self.checked_divisor(b, n)
         if a.ty == 'I' and b.ty == 'I':
             x, y = a.const, b.const
             if op == 'Add': return Val('I', const=x + y)
@@ -1454,9 +1624,111 @@ class FunTx:
             return self.callfun('Point', m, [a, Val('S', tr.S(b))], n)
         self.fail(f'binop {op} on {a.ty!r},{b.ty!r}', n)
 
+    # ---- round 6: checked arithmetic (CHECKED)
+    def parent_map(self):
+        if self.parents is None:
+            self.parents = {}
+            for x in ast.walk(self.fd):
+                for c in ast.iter_child_nodes(x): self.parents[c] = x
+        return self.parents
+
+    def bound_once(self, name):
+        """is `name` a local variable of the function being translated that is bound exactly once, by a plain assignment (not a parameter,
+        not a loop / comprehension variable, no augmented assignment)?"""
+        if name in [a.arg for a in self.fd.args.args]: return False
+        stores = [x for x in ast.walk(self.fd) if isinstance(x, ast.Name) and x.id == name and isinstance(x.ctx, (ast.Store, ast.Del))]
+        if len(stores) != 1: return False
+        pa = self.parent_map().get(stores[0])
+        return isinstance(pa, ast.Assign) and pa.targets == [stores[0]]
+
+    def guarded_divisor(self, n):
+        """n: a `a / d` node.  True when d is a local variable bound exactly once and the division stands in the TRUE branch of an enclosing
+        `if d != 0`, `if d != 0.0`, `if d > 0.0`, `if 0.0 < d` (the test alone, not part of an and / or): there d is not zero"""
+        d = n.right
+        if not (isinstance(d, ast.Name) and self.bound_once(d.id)): return False
+        def zero(x): return isinstance(x, ast.Constant) and type(x.value) in (int, float) and x.value == 0
+        def is_d(x): return isinstance(x, ast.Name) and x.id == d.id
+        pm = self.parent_map()
+        child, pa = n, pm.get(n)
+        while pa is not None:
+            if isinstance(pa, ast.If) and any(child is b for b in pa.body):
+                t = pa.test
+                if isinstance(t, ast.Compare) and len(t.ops) == 1:
+                    l, o, r = t.left, t.ops[0], t.comparators[0]
+                    if (is_d(l) and zero(r) and isinstance(o, (ast.NotEq, ast.Gt))) or (zero(l) and is_d(r) and isinstance(o, (ast.NotEq, ast.Lt))): return True
+            if isinstance(pa, (ast.FunctionDef, ast.Lambda)) and pa is not self.fd: return False
+            child, pa = pa, pm.get(pa)
+        return False
+
+    def checked_divisor(self, b, n):
+        """the divisor of a `/` in a CHECKED function: itself when it cannot be zero (a non-zero literal, a guarded variable), else the
+        value after the test that raises ZeroDivisionError on zero (bound to a name first when it is not atomic)"""
+        tr = self.tr
+        if b.ty == 'I':
+            if b.const != 0: return b
+        elif b.ty == 'S' and isinstance(b.const, tuple) and b.const[0] == 'pyfloat':
+            if b.const[1] != 0: return b
+        elif isinstance(n, ast.BinOp) and self.guarded_divisor(n): return b
+        if isinstance(b.ty, tuple) and b.ty[0] == 'O': self.fail('division by a value that may be None', n)
+        tx = tr.S(b)
+        if not tr.atomic(Val('S', tx)) and not (b.ty == 'I'):
+            nm = self.fresh('d')
+            self.push_effect({'effects': set(), 'what': 'divisor', 'kind': 'let', 'text': tx, 'pat': nm}, n)
+            tx = nm
+        self.push_effect({'effects': {'exc'}, 'what': 'division (ZeroDivisionError)', 'kind': 'zdiv', 'text': tx, 'pat': None}, n)
+        return Val('S', tx)
+
+    def nonneg_running_max(self, name):
+        """is `name` a local variable that can only hold a non-negative float (or NaN never: it is never assigned one)?  Every binding of it
+        in the function must be `name = <non-negative float literal>` or `name = y` as the only use of the name in the body of
+        `if y > name:` / `if name < y:` (y a plain name): by induction the value is >= 0 (a NaN y fails the test)"""
+        if name in [a.arg for a in self.fd.args.args]: return False
+        pm = self.parent_map()
+        stores = [x for x in ast.walk(self.fd) if isinstance(x, ast.Name) and x.id == name and isinstance(x.ctx, (ast.Store, ast.Del))]
+        if not stores: return False
+        for st in stores:
+            pa = pm.get(st)
+            if not (isinstance(pa, ast.Assign) and pa.targets == [st]): return False
+            v = pa.value
+            if isinstance(v, ast.Constant) and type(v.value) is float and v.value >= 0: continue
+            if not isinstance(v, ast.Name): return False
+            iff = pm.get(pa)
+            if not (isinstance(iff, ast.If) and any(pa is b for b in iff.body) and isinstance(iff.test, ast.Compare) and len(iff.test.ops) == 1): return False
+            l, o, r = iff.test.left, iff.test.ops[0], iff.test.comparators[0]
+            def nm(x, i): return isinstance(x, ast.Name) and x.id == i
+            if not ((nm(l, v.id) and isinstance(o, ast.Gt) and nm(r, name)) or (nm(l, name) and isinstance(o, ast.Lt) and nm(r, v.id))): return False
+            if v.id == name: return False
+        return True
+
+    def checked_sqrt(self, arg_node, a, n):
+        tr = self.tr
+        if isinstance(arg_node, ast.Name) and self.nonneg_running_max(arg_node.id): return Val('S', f'(sqrt_ O {tr.S(a)})')
+        nm = self.fresh('s')
+        self.push_effect({'effects': {'exc'}, 'what': 'math.sqrt (ValueError)', 'kind': 'sqrtneg', 'text': tr.S(a), 'pat': nm}, n)
+        return Val('S', f'(sqrt_ O {nm})')
+
+    def is_list(self, v): return (isinstance(v.ty, tuple) and v.ty[0] == 'L' and v.tx is not None) or v.ty == 'FL'
+    def is_optlist(self, v): return (v.ty == 'K' and v.const is None) or (isinstance(v.ty, tuple) and v.ty[0] == 'O' and isinstance(v.ty[1], tuple) and v.ty[1][0] == 'L' and v.tx is not None)
+
+    def list_concat(self, a, b, n):
+        tr = self.tr
+        parts = []
+        for x in (a, b):
+            if x.ty == 'K':
+                self.push_effect({'effects': {'exc'}, 'what': 'None + list (TypeError)', 'kind': 'raise', 'text': 'PyTypeError', 'pat': None}, n)
+                parts.append(Val(('L', '?'), '[]'))
+            elif self.is_optlist(x):
+                z = self.fresh('z')
+                self.push_effect({'effects': {'exc'}, 'what': 'list + a value that may be None (TypeError)', 'kind': 'nonelist', 'text': x.tx, 'pat': z}, n)
+                parts.append(Val(x.ty[1], z))
+            else: parts.append(Val(tr.rtype(x), tr.text(x)))
+        t = tmatch(parts[0].ty, parts[1].ty)
+        if t is None: self.fail(f'concatenation of {parts[0].ty!r} and {parts[1].ty!r}', n)
+        return Val(t, f'({parts[0].tx} ++ {parts[1].tx})')
+
     def keyeq(self, kt, n=None):
         if kt not in KEYEQ: self.fail(f'a dict keyed by {kt!r} (no key equality declared)', n)
-        if kt == 'P': self.dict_key_P(n)
+        if kt == 'P' or kt == ('T', ('P', 'P')): self.dict_key_P(n)
         return KEYEQ[kt]
 
     def dict_key_P(self, n):
@@ -1513,7 +1785,8 @@ class FunTx:
             res = [pyop[op](SEGN[t], b.const) if a.ty == 'SEGLEN' else pyop[op](a.const, SEGN[t]) for _, t in SEGSUM]
             if len(set(res)) == 1: return Val('K', const=res[0])
             return Val('B', f'(match {sl.tx} with ' + ' | '.join(f'{c} _ => {"true" if r else "false"}' for (c, _), r in zip(SEGSUM, res)) + ' end)')
-        if 'Z' in (a.ty, b.ty) and a.ty in ('Z', 'I') and b.ty in ('Z', 'I') and op in pyop:
+        zi = ('Z', 'I', 'LEN') if self.zint else ('Z', 'I')      # round 6 (ZINT): len(l) compared with ints
+        if ('Z' in (a.ty, b.ty) or (self.zint and 'LEN' in (a.ty, b.ty))) and a.ty in zi and b.ty in zi and op in pyop:
             x, y = self.Zt(a), self.Zt(b)
             t = {'Lt': f'({x} <? {y})%Z', 'LtE': f'({x} <=? {y})%Z', 'Gt': f'({y} <? {x})%Z', 'GtE': f'({y} <=? {x})%Z',
                  'Eq': f'({x} =? {y})%Z', 'NotEq': f'(negb ({x} =? {y})%Z)'}[op]
@@ -1536,6 +1809,20 @@ class FunTx:
         if a.ty == 'P' and b.ty == 'P' and op in ('Eq', 'NotEq'):
             e = self.callfun('Point', '__eq__', [a, b], n)
             return e if op == 'Eq' else Val('B', f'(negb {e.tx})')
+        if self.key in CLIP_FUNS and op in ('Eq', 'NotEq') and (a.ty == 'SEG' or a.ty in SEGN) and (b.ty == 'SEG' or b.ty in SEGN):
+            # round 6: Segment.__eq__ (Segment.__ne__ is its negation), dispatched on the classes of both segments
+            path, fdn, dc = find_def('Line', '__ne__')
+            want = ast.parse('def __ne__(self, other):\n    return not self.__eq__(other)').body[0]
+            if ast.dump(fdn) != ast.dump(want): self.fail('Segment.__ne__ is not the negation of __eq__', n)
+            def arms(x, f):
+                if x.ty in SEGN: return f(x)
+                return '(match ' + x.tx + ' with ' + ' | '.join(f'{con} {nm} => {f(Val(t, nm))}' for (con, t), nm in zip(SEGSUM, ('sa_', 'sb_', 'sc_'))) + ' end)'
+            def inner(x):
+                def g(y): return tr.text(self.callfun(CLASS_OF[x.ty], '__eq__', [x, y], n, (('ty', y.ty),)))
+                if b.ty in SEGN: return g(b)
+                return '(match ' + b.tx + ' with ' + ' | '.join(f'{con} {nm} => {g(Val(t, nm))}' for (con, t), nm in zip(SEGSUM, ('ta_', 'tb_', 'tc_'))) + ' end)'
+            t = arms(a, inner)
+            return Val('B', t if op == 'Eq' else f'(negb {t})')
         self.fail(f'compare {op} on {a.ty!r},{b.ty!r}', n)
 
     def Zt(self, v):
@@ -1605,9 +1892,23 @@ class FunTx:
         if isinstance(n.value, ast.Attribute) and isinstance(n.value.value, ast.Name) and n.value.value.id == 'sys' \
                 and n.value.attr == 'float_info' and n.attr == 'epsilon':
             return Val('S', '(lit O 1 4503599627370496 0x1p-52%float)')
-        if isinstance(n.value, ast.Name) and n.value.id == 'pyclipper': self.fail('pyclipper', n)
+        if isinstance(n.value, ast.Name) and n.value.id == 'pyclipper':
+            # round 6: the module pyclipper, an abstract parameter of the definitions (see CLIP_FUNS)
+            if self.key not in CLIP_FUNS or 'pyclipper' in env or 'pyclipper' in self.localfuns \
+                    or not any(isinstance(x, ast.Import) and any(a.name == 'pyclipper' and a.asname is None for a in x.names) for x in module(self.path)[1].body):
+                self.fail('pyclipper', n)
+            if n.attr in PYCLIPPER_CT: return Val('CT', PYCLIPPER_CT[n.attr])
+            if n.attr in ('PT_CLIP', 'PT_SUBJECT', 'PFT_EVENODD', 'Pyclipper'): return Val('K', const=('pyclipper', n.attr))
+            self.fail(f'pyclipper.{n.attr} (only Pyclipper, PT_CLIP, PT_SUBJECT, PFT_EVENODD and the CT_ constants are modelled)', n)
         v = self.expr(n.value, env)
         a = n.attr
+        if v.ty == 'PC':
+            if a in ('AddPath', 'Execute'): return Val('K', const=('pcmethod', a, v))
+            self.fail(f'attribute .{a} of a Pyclipper object (only AddPath and Execute are modelled)', n)
+        if v.ty == 'EDGE' and a == '_orig' and self.key in CLIP_FUNS:
+            # round 6: Line.__init__ sets `_orig = None`, so every Line has the attribute: None, or the curve a flattener cut it from
+            self.line_init_orig(n)
+            return Val(('O', 'SEG'), f'(snd {v.tx})')
         if v.ty == 'EDGE':
             # round 5: a Line with its `_orig`; everything else is the Line's
             if a == '_orig': self.fail('reading ._orig (an AttributeError when the Line was never tagged)', n)
@@ -1733,6 +2034,69 @@ class FunTx:
             if a in ('D', 'S'): return Val('K', const=('cdfmethod', a, v))
         self.fail(f'attribute .{a} of {v.ty!r}', n)
 
+    def line_init_orig(self, n):
+        """round 6: Line.__init__ must contain the statement `self._orig = None` at its top level, and no method other than the three
+        `flatten`s and Line.__init__ may store to an attribute `_orig`"""
+        path, fd, defcls = find_def('Line', '__init__')
+        me = fd.args.args[0].arg
+        want = ast.dump(ast.parse(f'{me}._orig = None').body[0])
+        if not any(ast.dump(st) == want for st in fd.body): self.fail('Line.__init__ does not set `_orig = None`', n)
+        self.tr.fingerprints[f'{path}:{defcls}.__init__'] = fingerprint(fd)
+        for k, mp in MODULE_OF_CLASS.items():
+            for x in ast.walk(module(mp)[1]):
+                if isinstance(x, ast.FunctionDef):
+                    for y in ast.walk(x):
+                        if isinstance(y, ast.Attribute) and y.attr == '_orig' and isinstance(y.ctx, (ast.Store, ast.Del)) and x.name not in ('flatten', '__init__'):
+                            self.fail(f'{mp}:{y.lineno}: _orig is set in {x.name}', n)
+
+    def untagged_segment(self, node):
+        """round 6: is the segment denoted by `node` -- a loop variable over X, X bound once to V.asSegments(), every binding of the path V the
+        result of a `.clone()` -- an object whose `_orig` is None?  BezierPath.clone makes fresh segments (Segment.clone: klass(..), and
+        Line.__init__ sets _orig = None); splitAtPoints, the only thing done to V, keeps them or cuts them with splitAtTime (fresh ones); only
+        the flatteners store another `_orig` (line_init_orig)."""
+        if not isinstance(node, ast.Name): return False
+        pm = self.parent_map()
+        # the innermost enclosing `for <node.id> in <X>` whose body does not rebind the variable
+        lp, c_ = None, node
+        while pm.get(c_) is not None:
+            c_ = pm[c_]
+            if isinstance(c_, ast.For) and isinstance(c_.target, ast.Name) and c_.target.id == node.id: lp = c_; break
+        if lp is None or not isinstance(lp.iter, ast.Name): return False
+        if any(isinstance(y, ast.Name) and y.id == node.id and isinstance(y.ctx, (ast.Store, ast.Del)) for b in lp.body for y in ast.walk(b)): return False
+        X = lp.iter.id
+        if not self.bound_once(X): return False
+        xs = [x for x in ast.walk(self.fd) if isinstance(x, ast.Name) and x.id == X and isinstance(x.ctx, ast.Store)][0]
+        v = pm[xs].value
+        if not (isinstance(v, ast.Call) and isinstance(v.func, ast.Attribute) and v.func.attr == 'asSegments' and not v.args and not v.keywords and isinstance(v.func.value, ast.Name)): return False
+        V = v.func.value.id
+        # the statements of the function body before the one that binds X: the last binding of V among them must be a top-level `V = <e>.clone()`,
+        # and V is otherwise only used there as the receiver of splitAtPoints / asSegments / clone
+        body = self.fd.body
+        jx = next((k for k, st in enumerate(body) if st is pm[xs]), None)
+        if jx is None: return False
+        last = None
+        for k, st in enumerate(body[:jx]):
+            for y in ast.walk(st):
+                if isinstance(y, ast.Name) and y.id == V and isinstance(y.ctx, (ast.Store, ast.Del)):
+                    pa = pm.get(y)
+                    if not (pa is st and isinstance(pa, ast.Assign) and pa.targets == [y] and isinstance(pa.value, ast.Call) and isinstance(pa.value.func, ast.Attribute)
+                            and pa.value.func.attr == 'clone' and not pa.value.args and not pa.value.keywords): return False
+                    last = k
+        if last is None: return False
+        for st in body[last + 1:jx + 1]:
+            for y in ast.walk(st):
+                if isinstance(y, ast.Name) and y.id == V and isinstance(y.ctx, ast.Load):
+                    pa = pm.get(y)
+                    if not (isinstance(pa, ast.Attribute) and pa.attr in ('splitAtPoints', 'asSegments', 'clone')): return False
+        try:
+            path, fd, defcls = find_def('Line', 'clone')
+            want = ast.parse('def clone(self) -> "Segment":\n    klass = self.__class__\n    return klass(*[p.clone() for p in self.points])').body[0]
+            body = [b for b in fd.body if not (isinstance(b, ast.Expr) and isinstance(b.value, ast.Constant))]
+            if [ast.dump(b) for b in body] != [ast.dump(b) for b in want.body]: return False
+        except KeyError: return False
+        self.line_init_orig(node)
+        return True
+
     def pathc_parts(self, v):
         """round 5: the two components (segments, closed) of a ('PATHC', t) value"""
         if v.tx is None: return v.items[0], v.items[1]
@@ -1788,6 +2152,24 @@ class FunTx:
         if arg.id in [a.arg for a in self.fd.args.args]: self.fail(f'the list {arg.id} handed to BezierPath.fromSegments is a parameter (its owner may update it)', n)
         for st in self.fd.body[idx + 1:]:
             if any(isinstance(y, ast.Name) and y.id == arg.id for y in ast.walk(st)): self.fail(f'the list {arg.id} is used after it was handed to BezierPath.fromSegments', n)
+
+    def loop_list_handover(self, call):
+        """round 6: `BezierPath.fromSegments(L)` inside a loop body: the new path KEEPS the list object L.  Required: L is a local variable that the
+        body of the enclosing `for` binds afresh (`L = []`, a top-level statement of that body), and no statement of the body after the one
+        containing the call mentions L -- so nothing can update the list the path now owns."""
+        arg = call.args[0]
+        if not isinstance(arg, ast.Name): self.fail('BezierPath.fromSegments of something that is not a local variable', call)
+        pm = self.parent_map()
+        st = call
+        while st is not None and not (isinstance(pm.get(st), ast.For) and st in pm[st].body): st = pm.get(st)
+        if st is None: self.fail('BezierPath.fromSegments(..) of a list of mixed segments outside a loop body', call)
+        body = pm[st].body
+        k = body.index(st)
+        fresh = [i for i, b in enumerate(body[:k]) if isinstance(b, ast.Assign) and len(b.targets) == 1 and isinstance(b.targets[0], ast.Name) and b.targets[0].id == arg.id
+                 and isinstance(b.value, ast.List) and not b.value.elts]
+        if not fresh: self.fail(f'the list {arg.id} handed to BezierPath.fromSegments is not bound afresh in the loop body', call)
+        if any(isinstance(y, ast.Name) and y.id == arg.id for b in body[k + 1:] for y in ast.walk(b)): self.fail(f'the list {arg.id} is used after it was handed to BezierPath.fromSegments', call)
+        if arg.id in [a.arg for a in self.fd.args.args]: self.fail(f'the list {arg.id} is a parameter', call)
 
     def obj_fields(self, v):
         """round 4: the mutable attributes of an ('OBJ', ..) value: as assigned so far, or projections of its run-time state"""
@@ -1996,6 +2378,8 @@ class FunTx:
             x = self.fresh('x')
             self.push_effect({'effects': {'exc'}, 'what': 'indexing by a run-time int (IndexError)', 'kind': 'indexZ', 'text': f'{v.tx} {i.tx}', 'pat': x}, n)
             return Val(v.ty[1], x)
+        if v.ty == 'EDGE' and i.ty == 'I' and self.key in CLIP_FUNS:      # round 6: a Line with its `_orig`: the Line's points
+            v = Val('seg2', f'(fst {v.tx})')
         if v.ty == 'SEG' and i.ty == 'I':
             # seg[k], seg of any of the three classes (Segment.__getitem__ is self.points[k]): only the indices all three have
             if i.const not in (0, 1, -1): self.fail(f'index {i.const} of a segment whose class is not known', n)
@@ -2014,6 +2398,7 @@ class FunTx:
         if isinstance(v.ty, tuple) and v.ty[0] == 'L' and v.ty[1] != '?' and i.ty == 'I' and v.tx is not None:
             # a dynamic list indexed by a literal: l[0] where l is known to be h :: t, and l[-1] (IndexError when l is empty)
             if i.const == 0 and isinstance(v.const, tuple) and v.const[0] == 'cons': return Val(v.ty[1], v.const[1])
+            if i.const == -1 and isinstance(v.const, tuple) and v.const[0] == 'lastis': return Val(v.ty[1], v.const[1])      # round 6: under `len(l) == 0 or ..`
             if i.const == -1:
                 x = self.fresh('x')
                 self.push_effect({'effects': {'exc'}, 'what': 'indexing [-1] (IndexError)', 'kind': 'last', 'text': v.tx, 'pat': x}, n)
@@ -2021,6 +2406,11 @@ class FunTx:
             if i.const == 0 and 'exc' in self.effects:
                 x = self.fresh('x')
                 self.push_effect({'effects': {'exc'}, 'what': 'indexing [0] (IndexError)', 'kind': 'head', 'text': v.tx, 'pat': x}, n)
+                return Val(v.ty[1], x)
+            if 'exc' in self.effects and self.zint:
+                # round 6: any other literal index, as py_index_Z (a negative one counts from the end)
+                x = self.fresh('x')
+                self.push_effect({'effects': {'exc'}, 'what': 'indexing by a literal (IndexError)', 'kind': 'indexZ', 'text': f'{v.tx} ({i.const})%Z', 'pat': x}, n)
                 return Val(v.ty[1], x)
             self.fail(f'index {i.const} of a list not known to be long enough', n)
         if isinstance(v.ty, tuple) and v.ty[0] == 'T' and i.ty == 'I':
@@ -2118,11 +2508,17 @@ class FunTx:
         self.formats.update(xs)
         extra = ''.join(fmt_param(f) + ' ' for f in xs) + ('keq ' if xs else '')
         if args and isinstance(args[0].ty, tuple) and args[0].ty[0] == 'OBJ': extra += ''.join(t + ' ' for t in args[0].ty[2])      # round 4
+        if cname in self.tr.pyclip:      # round 6
+            self.uses_pyclipper = True
+            extra += 'toZ clipper '
         m = is_mtype(rty)
         if m is not None:
             # the callee consumes fuel and/or may raise: its result is bound around the statement being translated
             eff, inner = m
             fuel = self.budget() + ' ' if 'fuel' in eff else ''
+            ceff = effects_of(cls, name, consts, 'zd' if cname.endswith('_zd') else None)
+            if 'depth' in ceff:      # round 6: a callee that recurses on `depth` (and whose own callees loop on `fuel`)
+                fuel = (self.budget() + ' ' if 'fuel' in ceff else '') + self.depth_budget() + ' '
             r = self.fresh('r')
             self.push_effect({'effects': set(eff), 'what': f'call of {cname}', 'kind': 'call', 'text': f'({cname} O {extra}{fuel}{argt})'.replace(' )', ')'), 'pat': r}, n)
             return Val(inner, r)
@@ -2145,6 +2541,11 @@ class FunTx:
         self.occurred.add('fuel')
         return self.fuel_names[-1]
 
+    def depth_budget(self):
+        if 'depth' not in self.declared: self.fail('a call of a function that recurses on `depth` in a function not declared with it (EFFECTS)')
+        self.occurred.add('depth')
+        return self.depth_name
+
     def push_effect(self, ent, n):
         if self.pure_depth > 0: self.fail(f'{ent["what"]} in an expression that is evaluated conditionally or repeatedly', n)
         if not ent['effects'] <= set(self.effects): self.fail(f'{ent["what"]} in a function not declared with effects {sorted(ent["effects"])} (EFFECTS)', n)
@@ -2161,6 +2562,7 @@ class FunTx:
         tr = self.tr
         if v.ty == 'K' and v.const is None: return v
         t, tx = tr.rtype(v), tr.text(v)
+        if self.mreturn_tag is not None: t, tx = 'EARLY', f'({self.mreturn_tag} {tx})'      # round 6 (join_early)
         if 'exc' in self.effects: tx = f'(Returns {tx})'
         if 'fuel' in self.effects: tx = f'(Some {tx})'
         return Val(mtype(self.effects, t), tx)
@@ -2192,6 +2594,22 @@ class FunTx:
                 t = f'match py_index_Z {ent["text"]} with\n  | None => {self.raise_text("PyIndexError")}\n  | Some {ent["pat"]} =>\n  {t}\n  end'
             elif ent['kind'] == 'unbox':
                 t = f'match {ent["text"]} with\n  | None => {self.raise_text("PyNoneError", ctx)}\n  | Some {ent["pat"]} =>\n  {t}\n  end'
+            elif ent['kind'] == 'convert':   # round 6
+                t = f'match {ent["text"]} with\n  | None => {self.raise_text("PyConvertError", ctx)}\n  | Some {ent["pat"]} =>\n  {t}\n  end'
+            elif ent['kind'] == 'clipper':
+                t = f'match {ent["text"]} with\n  | None => {self.raise_text("PyClipperError", ctx)}\n  | Some {ent["pat"]} =>\n  {t}\n  end'
+            elif ent['kind'] == 'poplast':
+                t = f'match {ent["text"]} with\n  | [] => {self.raise_text("PyIndexError", ctx)}\n  | _ :: _ =>\n  {t}\n  end'
+            elif ent['kind'] == 'let':       # round 6: a subterm bound to a name (no effect of its own)
+                t = f'let {ent["pat"]} := {ent["text"]} in\n  {t}'
+            elif ent['kind'] == 'zdiv':      # round 6
+                t = f'if eqb O {ent["text"]} (ofZ O 0) then {self.raise_text("PyZeroDivisionError", ctx)}\n  else {t}'
+            elif ent['kind'] == 'sqrtneg':
+                t = f'let {ent["pat"]} := {ent["text"]} in\n  if ltb O {ent["pat"]} (ofZ O 0) then {self.raise_text("PyValueError", ctx)}\n  else {t}'
+            elif ent['kind'] == 'nonelist':
+                t = f'match {ent["text"]} with\n  | None => {self.raise_text("PyTypeError", ctx)}\n  | Some {ent["pat"]} =>\n  {t}\n  end'
+            elif ent['kind'] == 'raise':
+                t = self.raise_text(ent['text'], ctx)
             elif ent['kind'] == 'unbound':
                 t = f'match {ent["text"]} with\n  | None => {self.raise_text("PyUnboundLocalError", ctx)}\n  | Some {ent["pat"]} =>\n  {t}\n  end'
             elif ent['kind'] == 'minlist':
@@ -2424,6 +2842,7 @@ class FunTx:
             kind = fv.const[0]
             if kind == 'math':
                 m = fv.const[1]
+                if m == 'sqrt' and self.checked and len(n.args) == 1 and not kwargs: return self.checked_sqrt(n.args[0], args[0], n)      # round 6
                 if m in ('sqrt', 'cos', 'sin', 'acos'): return Val('S', f'({m}_ O {tr.S(args[0])})')
                 if m in ('atan2', 'pow', 'copysign'): return Val('S', f'({m}_ O {tr.S(args[0])} {tr.S(args[1])})')
                 if m == 'floor' and 'exc' in self.effects:
@@ -2435,6 +2854,14 @@ class FunTx:
                 if m == 'floor': return Val('S', f'(floor_ O {tr.S(args[0])})')
                 if m == 'isclose': return Val('B', f'(isclose O {tr.S(args[0])} {tr.S(args[1])})')
                 self.fail(f'math.{m}', n)
+            if kind == 'pyclipper':
+                # round 6: pc = pyclipper.Pyclipper(): the object, known by the paths added to it so far (none)
+                if fv.const[1] != 'Pyclipper' or args or kwargs: self.fail(f'call of pyclipper.{fv.const[1]}', n)
+                return Val('PC', items=[Val('FL', items=[]), Val('FL', items=[])])
+            if kind == 'pcmethod':
+                _, mname, pc = fv.const
+                if mname != 'Execute': self.fail('pc.AddPath(..) elsewhere than as a statement', n)
+                return self.pc_execute(pc, args, kwargs, n)
             if kind == 'class':
                 return self.construct(fv.const[1], args, n, kwargs if fv.const[1] in RECORD_OF_CLASS else None)
             if kind == 'classattr':
@@ -2451,6 +2878,11 @@ class FunTx:
                         self.check_fromSegments(n)
                         self.fresh_list_handover(n, n)
                         return Val(('PATHC', lt[1]), items=[Val(lt, tr.text(l)), Val('K', const=self.path_init_closed(n))])
+                    if isinstance(lt, tuple) and lt[0] == 'L' and lt[1] == 'SEG' and l.tx is not None and self.key in CLIP_FUNS:
+                        # round 6: a list of segments of mixed classes built in the enclosing loop body: the path as (segments, closed)
+                        self.check_fromSegments(n)
+                        self.loop_list_handover(n)
+                        return Val(('PATHC', 'SEG'), items=[Val(lt, tr.text(l)), Val('K', const=self.path_init_closed(n))])
                     if not (isinstance(lt, tuple) and lt[0] == 'L' and lt[1] in SEGN): self.fail(f'BezierPath.fromSegments of {lt!r}', n)
                     return Val(lt, tr.text(l))
                 path, fd, defcls = find_def(cls, a)
@@ -2476,6 +2908,19 @@ class FunTx:
                 _, obj, a = fv.const
                 if args or kwargs: self.fail(f'{type(obj).__name__}.{a} with arguments', n)
                 return Val('K', const=('py', getattr(obj, a)()))
+            if kind == 'bound' and fv.const[1] == 'BezierPath' and fv.const[2] == 'clone' and fv.const[3].ty == 'PATH' and self.key in CLIP_FUNS:
+                # round 6: path.clone() of a path known as the list of its segments: the list of the clones of the segments (fresh objects;
+                # the flag `closed`, which BezierPath.clone copies too, is not part of a 'PATH' value)
+                if args or kwargs: self.fail('clone with arguments', n)
+                path, fd, defcls = find_def('BezierPath', 'clone')
+                want = ast.parse('p = BezierPath.fromSegments([s.clone() for s in self.asSegments()])\np.closed = self.closed\nreturn p').body
+                body = [b for b in fd.body if not (isinstance(b, ast.Expr) and isinstance(b.value, ast.Constant))]
+                if [ast.dump(b) for b in body] != [ast.dump(b) for b in want] or [a_.arg for a_ in fd.args.args] != ['self']: self.fail('BezierPath.clone is not the method the model was written for', n)
+                self.check_fromSegments(n)
+                tr.fingerprints[f'{path}:{defcls}.clone'] = fingerprint(fd)
+                recv = fv.const[3]
+                cl = self.seg_dispatch(Val('SEG', 'v_s'), lambda c, sv: self.callfun(c, 'clone', [sv], n), n)
+                return Val('PATH', f'(map (fun v_s => {cl.tx}) {recv.tx})')
             if kind == 'bound':
                 _, cls, a, recv = fv.const
                 if (cls, a) in STATEFUL and not self.in_stateful_call:
@@ -2487,6 +2932,15 @@ class FunTx:
                 if isinstance(want, tuple) and want[0] == 'RNG' and recv.ty == want[1]:
                     recv = self.as_ranged(recv, n)       # round 4: a curve as its constructor made it
                 return self.callfun(cls, a, [recv] + vals, n, consts)
+            if kind == 'localfun' and self.key in CLIP_FUNS and self.is_pairwise(self.localfuns[fv.const[1]]):
+                # round 6: the generator `pairwise(points)`: the pairs (points[i], points[i + 1]) in order (next(b) on an empty list would be a
+                # RuntimeError: the argument must be known to be non-empty -- here `<list> + [<item>]`)
+                if kwargs or len(args) != 1: self.fail('pairwise arity', n)
+                a0 = args[0]
+                if not (isinstance(a0.ty, tuple) and a0.ty[0] == 'L' and a0.ty[1] != '?' and a0.tx is not None and isinstance(a0.const, tuple) and a0.const[0] == 'nonempty'):
+                    self.fail('pairwise(..) of a list not known to be non-empty', n)
+                nm = self.fresh('l')
+                return Val(('IT', ('T', (a0.ty[1], a0.ty[1]))), f'(let {nm} := {a0.tx} in combine {nm} (tl {nm}))')
             if kind == 'localfun':
                 return self.inline(self.localfuns[fv.const[1]], args, kwargs, n)
             if kind == 'shapebounds':
@@ -2514,7 +2968,9 @@ class FunTx:
                     def arm(parts):
                         cls, sv, tag = parts[0]
                         want = SELF_TY.get((cls, a))
-                        if want == 'EDGE': sv = Val('EDGE', f'({sv.tx}, {tag if tag is not None else "None"})') if tag is not None else self.fail(f'{cls}.{a} needs the `_orig` of its receiver', n)
+                        if want == 'EDGE' and tag is None and self.key in CLIP_FUNS and isinstance(n.func, ast.Attribute) and self.untagged_segment(n.func.value):
+                            sv = Val('EDGE', f'({sv.tx}, None)')      # round 6: a segment of a cloned path: its `_orig` is None
+                        elif want == 'EDGE': sv = Val('EDGE', f'({sv.tx}, {tag if tag is not None else "None"})') if tag is not None else self.fail(f'{cls}.{a} needs the `_orig` of its receiver', n)
                         path, fd, defcls = find_def(cls, a)
                         args2 = list(args)
                         for i, (c2, sv2, _) in zip(seg_args, parts[1:]): args2[i] = sv2
@@ -2533,6 +2989,24 @@ class FunTx:
                 sub.closure_env = {}
                 return sub.inline(fd3, [recv] + args, kwargs, n)
         self.fail(f'call of {ast.dump(f)[:80]}', n)
+
+    def is_pairwise(self, fd):
+        want = ast.parse('def pairwise(points):\n    a = (p for p in points)\n    b = (p for p in points)\n    next(b)\n    for curpoint, nextpoint in zip(a, b):\n        yield curpoint, nextpoint').body[0]
+        return ast.dump(fd) == ast.dump(want)
+
+    def pc_execute(self, pc, args, kwargs, n):
+        """round 6: pc.Execute(cliptype, PFT_EVENODD, PFT_EVENODD): the coordinates of every path added are converted (toZ; subject paths first,
+        as Hand/Clip.v does), then the abstract `clipper` runs"""
+        tr = self.tr
+        if kwargs or len(args) != 3 or args[0].ty != 'CT' or any(not (a.ty == 'K' and a.const == ('pyclipper', 'PFT_EVENODD')) for a in args[1:]):
+            self.fail('pc.Execute(<cliptype>, pyclipper.PFT_EVENODD, pyclipper.PFT_EVENODD) is the only form modelled', n)
+        subj, clp = pc.items
+        s_, c_, r = self.fresh('subj'), self.fresh('clip'), self.fresh('r')
+        self.uses_pyclipper = True
+        self.push_effect({'effects': {'exc'}, 'what': 'conversion of the subject paths (pyclipper)', 'kind': 'convert', 'text': f'(clip_polys toZ {tr.text(subj)})', 'pat': s_}, n)
+        self.push_effect({'effects': {'exc'}, 'what': 'conversion of the clip paths (pyclipper)', 'kind': 'convert', 'text': f'(clip_polys toZ {tr.text(clp)})', 'pat': c_}, n)
+        self.push_effect({'effects': {'exc'}, 'what': 'pyclipper Execute (ClipperException)', 'kind': 'clipper', 'text': f'(clipper {args[0].tx} {s_} {c_})', 'pat': r}, n)
+        return Val(('L', ('L', ('T', ('Z', 'Z')))), r)
 
     def modfun_path(self, name):
         if name in self.local_imports and (self.local_imports[name], name) in MODSIG: return self.local_imports[name]      # round 5
@@ -2600,6 +3074,8 @@ class FunTx:
         flat = []
         for a in args:
             if a.ty == 'STAR':
+                if isinstance(a.items.ty, tuple) and a.items.ty[0] == 'T' and a.items.tx is not None:      # round 6: *<a run-time tuple>
+                    flat.extend(self.tuple_items(a.items)); continue
                 if a.items.ty != 'FL': self.fail('splat of dynamic list', n)
                 flat.extend(a.items.items)
             else: flat.append(a)
@@ -2620,6 +3096,10 @@ class FunTx:
         if name == 'BoundingBox':
             if flat: self.fail('BoundingBox constructor arguments', n)
             return Val('UBB', const=dict(UNSET_BOX))
+        if name == 'BezierPath' and self.key == ('BezierPath', 'fromPoints'):
+            # round 6: a fresh path, known by its components (its representation still unset, `closed` as __init__ sets it)
+            if flat: self.fail('BezierPath constructor arguments', n)
+            return Val(('PATHC', '?'), items=[Val('K', const=('norep',)), Val('K', const=self.path_init_closed(n))])
         if name == 'Intersection':
             seg1, t1, seg2, t2 = flat
             if seg1.ty == 'SEG':      # round 5: of unknown class
@@ -2708,6 +3188,7 @@ class FunTx:
         if t == 'S' and v.ty in ('I', 'S', 'LEN', 'Z'): return tr.S(v)
         if v.ty == 'FL' and not v.items and isinstance(t, tuple) and t[0] in ('L', 'IT'): return '[]'
         if t == 'SEG' and v.ty in SEGN: return f'({[c for c, k in SEGSUM if k == v.ty][0]} {v.tx})'
+        if t == 'SEG' and v.ty == 'EDGE': return f'(SLine (fst {v.tx}))'      # round 6: a Line with its `_orig`, as a segment
         if v.ty == 'FL' and isinstance(t, tuple) and t[0] in ('L', 'IT'):
             return '[' + '; '.join(self.as_type(i, t[1], n) for i in v.items) + ']'
         if v.ty in ('FL', 'TUP') and isinstance(t, tuple) and t[0] == 'T' and len(v.items) == len(t[1]):
@@ -2803,6 +3284,9 @@ class FunTx:
                 if isinstance(x, (ast.Assign, ast.AugAssign)):
                     tg = x.targets if isinstance(x, ast.Assign) else [x.target]
                     for t in tg:
+                        if isinstance(t, ast.Tuple) and all(isinstance(e_, ast.Name) for e_ in t.elts):
+                            for e_ in t.elts: add(e_.id)      # round 6: `a, b = e` assigns every name of the tuple (only the first one was recorded)
+                            continue
                         for y in ast.walk(t):
                             if isinstance(y, ast.Name): add(y.id); break
                 if isinstance(x, ast.Expr) and isinstance(x.value, ast.Call) and isinstance(x.value.func, ast.Attribute) \
@@ -2829,6 +3313,9 @@ class FunTx:
         """emit `let name := v in <k env'>` unless v is translation-time structure or atomic"""
         tr = self.tr
         e2 = dict(env)
+        if v.ty == 'PC':      # round 6: the Pyclipper object, known by the paths added to it
+            e2[name] = v
+            return k(e2)
         if v.ty in ('I', 'K', 'FL', 'TUP', 'LEN', 'UBB') or tr.atomic(v) or (isinstance(v.ty, tuple) and v.ty[0] == 'OBJ' and v.tx is None):
             if v.ty in ('FL', 'TUP'):
                 # bind non-atomic components so later uses do not duplicate them
@@ -2954,6 +3441,30 @@ class FunTx:
                 e2 = dict(env); e2[L] = Val(lv.ty, lv.const[2])
                 return self.bind(t.id, Val(lv.ty[1], lv.const[1]), e2, k)
             if isinstance(t, ast.Attribute) and t.attr == 'activeRepresentation' and isinstance(t.value, ast.Name) and t.value.id in env \
+                    and isinstance(env[t.value.id].ty, tuple) and env[t.value.id].ty[0] == 'PATHC' and env[t.value.id].tx is None and self.key == ('BezierPath', 'fromPoints'):
+                # round 6: path.activeRepresentation = SegmentRepresentation(path, segs) on a path the function has built itself: from now on
+                # path.asSegments() is what SegmentRepresentation.__init__ keeps of segs -- segs itself when it is truthy, else a fresh []
+                X = t.value.id
+                if not (isinstance(sv, ast.Call) and isinstance(sv.func, ast.Name) and sv.func.id == 'SegmentRepresentation' and sv.func.id not in env
+                        and self.names_class('SegmentRepresentation') and not sv.keywords and len(sv.args) == 2
+                        and isinstance(sv.args[0], ast.Name) and sv.args[0].id == X and isinstance(sv.args[1], ast.Name)):
+                    self.fail('activeRepresentation set to anything but SegmentRepresentation(<the path itself>, <a variable>)', s)
+                pth, fdi, dc = find_def('SegmentRepresentation', '__init__')
+                want = ast.parse('def __init__(self, path, segments=[]):\n    self.path = path\n    from beziers.path import BezierPath\n\n    assert isinstance(path, BezierPath)\n    self.segments = []\n    if segments:\n        self.segments = segments').body[0]
+                if ast.dump(fdi) != ast.dump(want): self.fail('SegmentRepresentation.__init__ is not the constructor the model was written for', s)
+                self.tr.fingerprints['path/representations/Segment.py:SegmentRepresentation.__init__'] = fingerprint(fdi)
+                self.tr.fingerprints['path/representations/Segment.py:SegmentRepresentation.data'] = fingerprint(find_def('SegmentRepresentation', 'data')[1])
+                self.tr.fingerprints['path/__init__.py:BezierPath.asSegments'] = fingerprint(find_def('BezierPath', 'asSegments')[1])
+                segs = self.expr(sv.args[1], env)
+                S_ = sv.args[1].id
+                if any(isinstance(y, ast.Name) and y.id == S_ for st in rest for y in ast.walk(st)): self.fail(f'the list {S_} is used after it was handed to SegmentRepresentation', s)
+                st_ = tr.rtype(segs)
+                if isinstance(st_, tuple) and st_[0] == 'O' and isinstance(st_[1], tuple) and st_[1][0] == 'L' and st_[1][1] in SEGN:
+                    lv = Val(st_[1], f'(match {segs.tx} with None => [] | Some l_ => l_ end)')       # None and [] are falsy: a fresh []
+                elif isinstance(st_, tuple) and st_[0] == 'L' and st_[1] in SEGN: lv = Val(st_, tr.text(segs))
+                else: self.fail(f'SegmentRepresentation of a {st_!r}', s)
+                return self.bind(X, Val(('PATHC', lv.ty[1]), items=[lv, env[X].items[1]]), env, k)
+            if isinstance(t, ast.Attribute) and t.attr == 'activeRepresentation' and isinstance(t.value, ast.Name) and t.value.id in env \
                     and env[t.value.id].ty == 'PATH':
                 # path.activeRepresentation = SegmentRepresentation(path, segs): from now on path.asSegments() is segs (SegmentRepresentation
                 # stores the list -- or a fresh [] when it is empty -- and data() hands it back): the path, as the list of its segments, is segs
@@ -2997,6 +3508,11 @@ class FunTx:
             if isinstance(s.target, ast.Attribute) and isinstance(s.target.value, ast.Name) and s.target.value.id in env \
                     and env[s.target.value.id].ty == 'P' and s.target.attr in ('x', 'y'):
                 # p.x += e  is  p.x = p.x + e  (the attribute of a float is a float: no in-place operator involved)
+                cur = self.expr(s.target, env)
+                v = self.binop(type(s.op).__name__, cur, self.expr(s.value, env), s)
+                return self.assign(s.target, v, env, k, s)
+            if isinstance(s.target, ast.Subscript) and self.fixed_list_target(s.target, env) is not None:
+                # round 6: X[i][j] += e, X a list literal of fixed shape: X[i][j] = X[i][j] + e (the items are floats: no in-place operator involved)
                 cur = self.expr(s.target, env)
                 v = self.binop(type(s.op).__name__, cur, self.expr(s.value, env), s)
                 return self.assign(s.target, v, env, k, s)
@@ -3127,6 +3643,23 @@ class FunTx:
             vt = tmatch(d.ty[2], tr.rtype(v))
             if kt is None or kt == '?' or vt is None: self.fail(f'd[k] = v with k : {tr.rtype(kv)!r}, v : {tr.rtype(v)!r} in a {d.ty!r}', s)
             return self.bind(t.value.id, Val(('DICT', kt, vt), f'(dict_set {self.keyeq(kt, s)} {d.tx} {tr.text(kv)} {tr.text(v)})'), env, k)
+        if isinstance(t, ast.Subscript) and self.fixed_list_target(t, env) is not None:
+            # round 6: X[i][j] = v, X a list literal of fixed shape kept as translation-time structure: the same structure with the item replaced
+            X, idx = self.fixed_list_target(t, env)
+            if tr.rtype(v) != 'S': self.fail(f'item of a list of floats set to a {tr.rtype(v)!r}', s)
+            lets = []
+            if v.ty == 'S' and not tr.atomic(v):
+                nm = self.fresh(f'v_{X}'); lets.append((nm, v.tx)); v = Val('S', nm)
+            def put(fl, idx):
+                kk = idx[0] if idx[0] >= 0 else idx[0] + len(fl.items)
+                if fl.ty != 'FL' or not 0 <= kk < len(fl.items): self.fail('item assignment out of range', s)
+                items = list(fl.items)
+                items[kk] = v if len(idx) == 1 else put(items[kk], idx[1:])
+                return Val('FL', items=items)
+            e2 = dict(env); e2[X] = put(env[X], idx)
+            r = k(e2)
+            for nm, tx in reversed(lets): r = self.retext(r, f'let {nm} := {tx} in\n  {tr.text(r)}')
+            return r
         if isinstance(t, ast.Subscript) and isinstance(t.value, ast.Name) and t.value.id in env and env[t.value.id].ty in SEGN \
                 and not isinstance(t.slice, ast.Slice):
             # seg[k] = point  (Segment.__setitem__: self.points[key] = item)
@@ -3150,6 +3683,61 @@ class FunTx:
                 nv = Val('BB', f'(BB {np} (tr {recv.tx}))' if c == 'bl' else f'(BB (bl {recv.tx}) {np})')
                 return self.bind(nm, nv, env, k)
         self.fail('assignment target', s)
+
+    def fixed_list_shape(self, name):
+        """round 6: is `name` a local variable bound exactly once, to a list literal of floats or (nested) of list literals of floats, every
+        other occurrence of which is subscripted down to a float (X[i] / X[i][j], to read or to store)?  Then no inner list is ever
+        aliased, handed on or resized: the value is translation-time structure whose items are updated one by one.  Returns the
+        nesting depth, or None."""
+        if not self.bound_once(name): return None
+        pm = self.parent_map()
+        st = [x for x in ast.walk(self.fd) if isinstance(x, ast.Name) and x.id == name and isinstance(x.ctx, ast.Store)][0]
+        lit = pm[st].value
+        def depth(x):
+            if not isinstance(x, ast.List) or not x.elts: return None
+            if all(not isinstance(e, (ast.List, ast.Tuple, ast.Starred, ast.ListComp, ast.Dict, ast.Name, ast.Call, ast.Attribute, ast.Subscript)) for e in x.elts): return 1
+            ds = {depth(e) for e in x.elts}
+            return None if (None in ds or len(ds) != 1) else 1 + ds.pop()
+        d = depth(lit)
+        if d is None: return None
+        for x in ast.walk(self.fd):
+            if isinstance(x, ast.Name) and x.id == name and x is not st:
+                c, pa, n = x, pm.get(x), 0
+                while isinstance(pa, ast.Subscript) and pa.value is c and not isinstance(pa.slice, ast.Slice):
+                    n += 1; c, pa = pa, pm.get(pa)
+                if n != d: return None
+        return d
+
+    def fixed_list_target(self, t, env):
+        """round 6: t = X[i]..[j] with X a fixed-shape list literal (fixed_list_shape) held as translation-time structure and literal int
+        indices down to a float -> (X, [i, .., j])"""
+        path, base = [], t
+        while isinstance(base, ast.Subscript) and not isinstance(base.slice, ast.Slice):
+            path.append(base.slice); base = base.value
+        if not (isinstance(base, ast.Name) and base.id in env and env[base.id].ty == 'FL'): return None
+        d = self.fixed_list_shape(base.id)
+        if d is None or d != len(path): return None
+        idx = []
+        for x in reversed(path):
+            if not (isinstance(x, ast.Constant) and type(x.value) is int): return None
+            idx.append(x.value)
+        return base.id, idx
+
+    def fl_tuple_type(self, v):
+        """round 6: the tuple type that carries a fixed-shape list of floats through a loop"""
+        if v.ty == 'FL' and v.items: 
+            ts = [self.fl_tuple_type(i) for i in v.items]
+            return None if any(t is None for t in ts) else ('T', tuple(ts))
+        return 'S' if v.ty in ('S', 'I') else None
+
+    def fl_fresh(self, t, base):
+        """round 6: (a list value of the shape t whose items are fresh names, the pattern that binds them)"""
+        if t == 'S':
+            nm = self.fresh(base); return Val('S', nm), nm
+        parts = [self.fl_fresh(x, base) for x in t[1]]
+        pat = None
+        for _, p_ in parts: pat = p_ if pat is None else f'({pat}, {p_})'
+        return Val('FL', items=[v for v, _ in parts]), pat
 
     def range_assign(self, s, env, k):
         """round 4: `x._range = [lo, hi]`, x a local variable holding a curve that splitAtTime has just created: from here on x is the
@@ -3324,6 +3912,17 @@ class FunTx:
         tr = self.tr
         f = c.func
         if isinstance(f, ast.Name) and f.id == 'print': return k(env)
+        if self.key in CLIP_FUNS and isinstance(f, ast.Attribute) and isinstance(f.value, ast.Name) and f.value.id == 'logging' and 'logging' not in env \
+                and f.attr in ('debug', 'info') and not c.keywords \
+                and any(isinstance(x, ast.Import) and any(a.name == 'logging' and a.asname is None for a in x.names) for x in module(self.path)[1].body):
+            # round 6: logging.debug(..) of values that cannot fail to print: names, constants, "%s" % <name>, <name>.asSegments()
+            def harmless(x):
+                if isinstance(x, (ast.Name, ast.Constant)): return True
+                if isinstance(x, ast.BinOp) and isinstance(x.op, ast.Mod): return harmless(x.left) and harmless(x.right)
+                if isinstance(x, ast.Call) and isinstance(x.func, ast.Attribute) and x.func.attr == 'asSegments' and isinstance(x.func.value, ast.Name) and not x.args and not x.keywords: return True
+                return False
+            if all(harmless(a) for a in c.args): return k(env)
+            self.fail('logging of an expression that might fail', s)
         if isinstance(f, ast.Attribute) and f.attr == 'append' and isinstance(f.value, ast.Attribute) and isinstance(f.value.value, ast.Name) \
                 and f.value.value.id in env and env[f.value.value.id].ty in RECORDS and len(c.args) == 1 and not c.keywords:
             # obj.field.append(x), obj a record: the field is a list owned by the record (nothing else refers to it: the records
@@ -3338,6 +3937,9 @@ class FunTx:
         if isinstance(f, ast.Name) and f.id not in env and f.id not in self.localfuns and self.modfun_path(f.id) \
                 and ('mod:' + self.modfun_path(f.id), f.id) in MUTATED_PARAM:
             return self.stmt_call_updating(c, env, k, s)
+        if isinstance(f, ast.Attribute) and isinstance(f.value, ast.Name) and f.value.id in env and env[f.value.id].ty == 'K' \
+                and isinstance(env[f.value.id].const, tuple) and env[f.value.id].const[0] == 'class' and (env[f.value.id].const[1], f.attr) in MUTATED_PARAM:
+            return self.stmt_call_updating_cm(env[f.value.id].const[1], c, env, k, s)      # round 6
         if isinstance(f, ast.Attribute) and isinstance(f.value, ast.Name) and f.value.id in env and self.is_ref(env[f.value.id]):
             # r.append(x), r a reference to one of the local deques: the deque it refers to is updated
             if f.attr != 'append' or len(c.args) != 1 or c.keywords: self.fail(f'.{f.attr} through a reference to a deque', s)
@@ -3346,12 +3948,30 @@ class FunTx:
                 ty = cur.ty if cur.ty[1] != '?' else ('DQ', tr.rtype(x))
                 return Val(ty, f'({cur.tx} ++ [{self.as_type(x, ty[1], s)}])')
             return self.update_through(env[f.value.id], upd, env, k, s)
+        if isinstance(f, ast.Attribute) and isinstance(f.value, ast.Name) and f.value.id in env and env[f.value.id].ty == 'PC':
+            # round 6: pc.AddPath(path, pyclipper.PT_CLIP | pyclipper.PT_SUBJECT, True)
+            nm = f.value.id
+            pc = env[nm]
+            args = [self.expr(a, env) for a in c.args]
+            if f.attr != 'AddPath' or c.keywords or len(args) != 3 or not (args[1].ty == 'K' and args[1].const in (('pyclipper', 'PT_CLIP'), ('pyclipper', 'PT_SUBJECT'))) \
+                    or not (args[2].ty == 'K' and args[2].const is True) or tr.rtype(args[0]) != ('L', ('T', ('S', 'S'))) or args[0].ty == 'FL':
+                self.fail('pc.AddPath(<list of coordinate pairs>, pyclipper.PT_CLIP | pyclipper.PT_SUBJECT, True) is the only form modelled', s)
+            self.check_pc_variable(nm, s)
+            subj, clp = pc.items
+            if args[1].const[1] == 'PT_SUBJECT': subj = Val('FL', items=subj.items + [args[0]])
+            else: clp = Val('FL', items=clp.items + [args[0]])
+            e2 = dict(env); e2[nm] = Val('PC', items=[subj, clp])
+            return k(e2)
         if isinstance(f, ast.Attribute) and isinstance(f.value, ast.Name) and f.value.id in env:
             nm = f.value.id
             recv = env[nm]
             args = [self.expr(a, env) for a in c.args]
             kwargs = {kw.arg: self.expr(kw.value, env) for kw in c.keywords}
             lty = recv.ty
+            if f.attr == 'pop' and not args and not kwargs and isinstance(lty, tuple) and lty[0] == 'L' and recv.tx is not None and 'exc' in self.effects and self.key in CLIP_FUNS:
+                # round 6: l.pop() as a statement (the popped item is dropped): IndexError on an empty list
+                self.push_effect({'effects': {'exc'}, 'what': 'list.pop() (IndexError)', 'kind': 'poplast', 'text': recv.tx, 'pat': None}, s)
+                return self.bind(nm, Val(lty, f'(removelast {recv.tx})'), env, k)
             if nm in self.closure_params and (lty == 'FL' or (isinstance(lty, tuple) and lty[0] in ('L', 'DQ'))):
                 # the parameter of an expanded local function holds a copy of the argument's VALUE: updating it in place would not
                 # reach the caller's object (only references to the local deques do)
@@ -3364,6 +3984,7 @@ class FunTx:
                     if lty == 'FL':
                         return self.bind(nm, Val('FL', items=recv.items + [args[0]]), env, k)
                     if lty[1] == '?': lty = ('L', tr.rtype(args[0]))      # first append to a list whose element type is not known yet
+                    if lty[1] == 'SEG' and (args[0].ty in SEGN or args[0].ty == 'EDGE'): return self.bind(nm, Val(lty, f'({recv.tx} ++ [{self.as_type(args[0], "SEG", s)}])'), env, k)      # round 6
                     return self.bind(nm, Val(lty, f'({recv.tx} ++ [{tr.text(args[0]) if lty[1] != "S" else tr.S(args[0])}])'), env, k)
                 if f.attr == 'extend':
                     a = args[0]
@@ -3423,6 +4044,24 @@ class FunTx:
                 nv = self.callfun(cls, f.attr, [recv] + vals, s, consts)
                 return self.bind(nm, nv, env, k)
         self.fail('statement-level call', s)
+
+    def check_pc_variable(self, nm, s):
+        """round 6: the Pyclipper object is a local variable bound once, by `<nm> = pyclipper.Pyclipper()` at the top level of the function, and
+        only used as the receiver of AddPath statements and of Execute, all at the top level of the function body (so the order of the calls is
+        the order of the statements)"""
+        pm = self.parent_map()
+        if not self.bound_once(nm): self.fail(f'the Pyclipper object {nm} is rebound', s)
+        for y in ast.walk(self.fd):
+            if isinstance(y, ast.Name) and y.id == nm:
+                pa = pm.get(y)
+                if isinstance(y.ctx, ast.Store):
+                    if pm.get(pa) is not self.fd: self.fail(f'{nm} is not bound at the top level of the function', s)
+                    continue
+                call = pm.get(pa)
+                st = pm.get(call)
+                ok = isinstance(pa, ast.Attribute) and pa.attr in ('AddPath', 'Execute') and isinstance(call, ast.Call) and call.func is pa \
+                    and isinstance(st, (ast.Expr, ast.Assign)) and pm.get(st) is self.fd
+                if not ok: self.fail(f'the Pyclipper object {nm} is used other than by top-level AddPath / Execute calls', s)
 
     def is_ref(self, v):
         return (v.ty == 'K' and isinstance(v.const, tuple) and v.const[0] == 'cellref') or (isinstance(v.ty, tuple) and v.ty[0] == 'RF')
@@ -3491,6 +4130,34 @@ class FunTx:
         new = Val(sig[i] if tmatch(new.ty, sig[i]) is not None else new.ty, new.tx)
         if target_ref is None: return self.bind(an.id, new, env, k)
         return self.update_through(target_ref, lambda cur_: new, env, k, s)
+
+    def stmt_call_updating_cm(self, cls, c, env, k, s):
+        """round 6: statement `self.g(.., x, ..)` / `Cls.g(.., x, ..)`, g a classmethod that returns None and updates its MUTATED_PARAM in
+        place: the generated g returns the new value of that argument, and x is rebound to it.  x must be a local variable (not a
+        parameter) every binding of which is the result of a call (a fresh object) and that is never copied into another variable
+        (`y = x`): then no other name can see the update."""
+        tr = self.tr
+        name = c.func.attr
+        path, fd, defcls = find_def(cls, name)
+        mp = MUTATED_PARAM[(cls, name)]
+        params = [a.arg for a in fd.args.args][1:]
+        if c.keywords or len(c.args) != len(params) or fd.args.defaults or any(isinstance(a, ast.Starred) for a in c.args): self.fail(f'call of {name}: only plain positional arguments', s)
+        an = c.args[params.index(mp)]
+        if not (isinstance(an, ast.Name) and an.id in env): self.fail(f'{name} updates its argument {mp} in place: it must be a variable', s)
+        X = an.id
+        pm = self.parent_map()
+        if X in [a.arg for a in self.fd.args.args]: self.fail(f'{name} updates {X}, a parameter (its owner would see the update)', s)
+        for y in ast.walk(self.fd):
+            if isinstance(y, ast.Name) and y.id == X:
+                pa = pm.get(y)
+                if isinstance(y.ctx, ast.Store) and not (isinstance(pa, ast.Assign) and pa.targets == [y] and isinstance(pa.value, ast.Call)):
+                    self.fail(f'{name} updates {X}, which is not only ever bound to the result of a call', s)
+                if isinstance(y.ctx, ast.Load) and isinstance(pa, (ast.Assign, ast.List, ast.Tuple, ast.Dict, ast.Return)) and not (isinstance(pa, ast.Return) and False):
+                    if not isinstance(pa, ast.Return): self.fail(f'{name} updates {X}, which is copied into another variable or structure', s)
+        vals = [self.expr(a, env) for a in c.args]
+        vals, consts = self.coerce_args(cls, name, vals, s)
+        nv = self.callfun(cls, name, vals, s, consts)
+        return self.bind(X, nv, env, k)
 
     def narrow(self, test, env):
         """Optional-typed name tested for None / truthiness -> (name, value, mode)"""
@@ -3574,6 +4241,57 @@ class FunTx:
                     if not ok: self.fail(f'the alias {X} of a value of {D} is used other than by len / pop / append / indexing', x)
         return D, K, X
 
+    def dict_get_idiom(self, s, env):
+        """round 6: `if K in D and <more>:` whose body starts with `X = D[K]`, D a dict variable, K a name, X a new variable not used after the
+        `if` -> (D, K, X, [<more>])"""
+        t = s.test
+        if not (isinstance(t, ast.BoolOp) and isinstance(t.op, ast.And) and len(t.values) >= 2): return None
+        c0 = t.values[0]
+        if not (isinstance(c0, ast.Compare) and len(c0.ops) == 1 and isinstance(c0.ops[0], ast.In) and isinstance(c0.left, ast.Name) and isinstance(c0.comparators[0], ast.Name) and s.body): return None
+        D, K = c0.comparators[0].id, c0.left.id
+        if D not in env or not (isinstance(env[D].ty, tuple) and env[D].ty[0] == 'DICT') or K not in env or D == K: return None
+        a = s.body[0]
+        if not (isinstance(a, ast.Assign) and len(a.targets) == 1 and isinstance(a.targets[0], ast.Name) and isinstance(a.value, ast.Subscript) and isinstance(a.value.value, ast.Name)
+                and a.value.value.id == D and isinstance(a.value.slice, ast.Name) and a.value.slice.id == K): return None
+        X = a.targets[0].id
+        if X in (D, K) or X in env: self.fail(f'{X} = {D}[{K}]: the variable must be a new one', s)
+        def mentions(stmts, nm): return any(isinstance(y, ast.Name) and y.id == nm for st in stmts for y in ast.walk(st))
+        if mentions(s.orelse, X): self.fail(f'{X} is used in the else branch', s)
+        if K in self.assigned(s.body + s.orelse, env) or D in self.assigned(s.body + s.orelse, env): self.fail(f'{K} / {D} is updated under the test', s)
+        return D, K, X, list(t.values[1:])
+
+    def dict_get_if(self, dg, s, rest, env, cont, ret):
+        """round 6: if K in D and C: X = D[K]; A  else: B   -- D[K] is read only where K is in D:
+            let <vars> := match dict_get D K with Some x => if C then A else B | None => B end in <the rest>"""
+        tr = self.tr
+        D, K, X, more = dg
+        d, kv = env[D], env[K]
+        kt = tmatch(d.ty[1], tr.rtype(kv))
+        if kt is None or kt == '?' or d.ty[2] == '?' or d.tx is None: self.fail(f'lookup of a {tr.rtype(kv)!r} in a {d.ty!r}', s)
+        if self.always_returns(s.body) or self.always_returns(s.orelse) or self.has_exit(s.body) or self.has_exit(s.orelse): self.fail('return / break under a dict lookup test', s)
+        if any(X in l for l in self.live_stack) or self.reads_free(rest, X): self.fail(f'{X} is used after the `if`', s)
+        live = self.live_after(rest)
+        names = [v for v in self.assigned(s.body[1:] + s.orelse, env) if v in live and v != X]
+        if not names: return self.block(rest, env, cont, ret)
+        x0 = self.fresh('v_' + X)
+        eS = dict(env); eS[X] = Val(d.ty[2], x0)
+        c = self.conj(self.purely(lambda: [self.truth(self.expr(m, env), s) for m in more]), 'andb')
+        def branch(stmts, e):
+            return self.with_live(names, lambda: self.in_ctx('pure', lambda: self.block(stmts, e, lambda e2: Val('TUP', items=[self.need(e2, v, s) for v in names]), lambda v, e2: self.fail('return in joined branch', s))))
+        a, b = branch(s.body[1:], eS), branch(s.orelse, env)
+        x, y, ty = self.unify_wrapped(a, b, names, s)
+        tys = list(ty[1]) if isinstance(ty, tuple) and ty[0] == 'T' and len(ty[1]) == len(names) else self.fail(f'joined branches of type {ty!r}', s)
+        inner = f'(if {c.tx} then {x} else {y})' if c.ty != 'K' else (x if c.const else y)
+        e2 = dict(env)
+        pat = None
+        for nm, t in zip(names, tys):
+            fn = self.fresh('v_' + nm)
+            e2[nm] = Val(t, fn)
+            pat = fn if pat is None else f'({pat}, {fn})'
+        if len(names) > 1: pat = "'" + pat
+        r = self.block(rest, e2, cont, ret)
+        return self.retext(r, f'let {pat} := (match dict_get {self.keyeq(kt, s)} {d.tx} {tr.text(kv)} with Some {x0} => {inner} | None => {y} end) in\n  {tr.text(r)}')
+
     def len_eq_test(self, t, env):
         """`len(X) == k` for a dynamic list variable X and a literal k >= 1 -> (X, k)"""
         if isinstance(t, ast.Compare) and len(t.ops) == 1 and isinstance(t.ops[0], ast.Eq) and isinstance(t.left, ast.Call) \
@@ -3633,6 +4351,9 @@ class FunTx:
                 return self.stmt_if(outer, rest, env, cont, ret)
         sx = self.seg_len_var(s.test, env)
         if sx is not None: return self.split_on_class(sx, s, rest, env, cont, ret)
+        if self.key in CLIP_FUNS:
+            dg = self.dict_get_idiom(s, env)
+            if dg is not None: return self.dict_get_if(dg, s, rest, env, cont, ret)      # round 6
         da = self.dict_alias_idiom(s, rest, env)
         if da is not None:
             D, K, X = da
@@ -3688,6 +4409,9 @@ class FunTx:
             elif mode == 'notnone': cS = Val('K', const=True)
             elif inner == 'S':
                 cS = Val('B', f'(eqb O {z} (ofZ O 0))') if mode == 'falsy' else Val('B', f'(neqb O {z} (ofZ O 0))')
+            elif isinstance(inner, tuple) and inner[0] == 'L' and mode in ('truthy', 'falsy') and self.key in CHECKED:
+                # round 6: an Optional list: None and [] are both falsy
+                cS = Val('B', f'(isnil {z})') if mode == 'falsy' else Val('B', f'(negb (isnil {z}))')
             else:
                 if mode in ('truthy', 'falsy') and isinstance(inner, str) and inner in CLASS_OF: self.always_truthy(inner, s)
                 cS = Val('K', const=(mode == 'truthy'))
@@ -3703,6 +4427,9 @@ class FunTx:
         if c.ty == 'K':
             return self.block((s.body if c.const else s.orelse) + rest, env, cont, ret)
         rb, ro = self.always_returns(s.body), self.always_returns(s.orelse)
+        if self.join_early and not (rb or ro) and (self.has_return(s.body) or self.has_return(s.orelse)) and rest and self.effects \
+                and self.ctx_stack[-1] == 'fun' and self.pure_depth == 0 and not any(l is not None for l in self.loop_stack):
+            return self.join_early_outcomes(c, s, rest, env, cont, ret)      # round 6
         if rb or ro or self.has_exit(s.body) or self.has_exit(s.orelse):
             # at least one side leaves the function: no join needed (the rest is duplicated only on mixed paths)
             a = self.block(s.body + ([] if rb else rest), env, cont, ret)
@@ -3771,6 +4498,78 @@ class FunTx:
         if is_mtype(tr.rtype(r)) is None: raise EffectInJoin(f'{self.path}:{s.lineno} ({self.fd.name}): effectful branches where the continuation is not a function result')
         ent = {'effects': set(self.effects), 'what': 'if with effectful branches', 'kind': 'call', 'text': f'(if {c.tx} then\n  {x}\n  else {y})', 'pat': pat}
         return self.retext(r, self.wrap([ent], tr.text(r), self.ctx_stack[-1], s))
+
+    def join_early_outcomes(self, c, s, rest, env, cont, ret):
+        """round 6 (JOIN_EARLY): an `if` some of whose paths return and some fall through, followed by more code.  Each branch is a result with
+        the function's effects of a sum: `inl v` where it executes `return v`, `inr (<the variables it assigns that are used later>)` where it
+        falls through; the rest is translated once:
+
+            match (if c then A else B) with
+            | None => None | Some (Raises e_) => Some (Raises e_)
+            | Some (Returns (inl r_)) => Some (Returns r_)
+            | Some (Returns (inr <vars>)) => <the rest>
+            end"""
+        tr = self.tr
+        if self.ret_type is None: self.fail('an `if` with early returns in a function whose result type is not declared (RECURSIVE / RET_DECL)', s)
+        live = self.live_after(rest)
+        names = [v for v in self.assigned(s.body + s.orelse, env) if v in live]
+        def tagged(tag, thunk):
+            saved = self.mreturn_tag
+            self.mreturn_tag = tag
+            try: return thunk()
+            finally: self.mreturn_tag = saved
+        def branch(stmts):
+            def end(e):
+                vals = [self.need(e, v, s) for v in names]
+                v = Val('UNIT', 'tt') if not vals else (vals[0] if len(vals) == 1 else Val('TUP', items=vals))
+                return tagged('inr', lambda: self.mreturn(v))
+            def early(v, e): return tagged('inl', lambda: ret(v, e))
+            return self.with_live(names, lambda: tagged(None, lambda: self.block(stmts, env, end, early)))
+        a, b = branch(s.body), branch(s.orelse)
+        x, y, ty = self.unify(a, b, s)
+        m = is_mtype(ty)
+        if m is None or m[0] != set(self.effects) or m[1] != 'EARLY': self.fail(f'joined branches of type {ty!r}', s)
+        e2 = dict(env)
+        # the types of the variables: as the branches leave them (both branches must agree)
+        def types_at_end(stmts):
+            out = []
+            def end(e):
+                out.append([tr.rtype(self.need(e, v, s)) for v in names]); return Val('K', const=None)
+            saved = (self.counter, tr.counter, len(self.pending))
+            self.trial += 1
+            try:
+                try: self.with_live(names, lambda: self.block(stmts, env, end, lambda v, e: Val('K', const=None)))
+                except Untranslatable: pass
+            finally:
+                self.trial -= 1
+                self.counter, tr.counter = saved[0], saved[1]; del self.pending[saved[2]:]
+            return out
+        rows = types_at_end(s.body) + types_at_end(s.orelse)
+        tys = []
+        for i, v in enumerate(names):
+            t = None
+            for row in rows:
+                rt = 'Z' if (row[i] == 'S' and v in env and env[v].ty == 'Z') else row[i]
+                t = rt if t is None else tmatch(t, rt)
+                if t is None: self.fail(f'the branches leave {v} with different types', s)
+            if t is None: self.fail(f'no type for {v} after the branches', s)
+            tys.append(t)
+        pat = None
+        for nm, t in zip(names, tys):
+            fn = self.fresh('v_' + nm)
+            e2[nm] = Val(t, fn)
+            pat = fn if pat is None else f'({pat}, {fn})'
+        if pat is None: pat = '_'
+        r = self.block(rest, e2, cont, ret)
+        if r.ty == 'K' and r.const is None: self.fail('early returns on a path that returns None', s)
+        if is_mtype(tr.rtype(r)) is None: raise EffectInJoin(f'{self.path}:{s.lineno} ({self.fd.name}): early returns where the continuation is not a function result')
+        ev = ret(Val(self.ret_type, 'r_'), env)
+        fx_ = tuple(sorted(self.effects))
+        arms = {('exc',): f'  | Raises e_ => {self.raise_text("e_")}\n  | Returns (inl r_) => {tr.text(ev)}\n  | Returns (inr {pat}) =>',
+                ('fuel',): f'  | None => None\n  | Some (inl r_) => {tr.text(ev)}\n  | Some (inr {pat}) =>',
+                ('exc', 'fuel'): f'  | None => None\n  | Some (Raises e_) => {self.raise_text("e_")}\n  | Some (Returns (inl r_)) => {tr.text(ev)}\n  | Some (Returns (inr {pat})) =>'}[fx_]
+        self.occurred |= set(self.effects) & {'exc'} if 'Raises' in x + y else set()
+        return self.retext(r, f'match (if {c.tx} then\n  {x}\n  else {y}) with\n{arms}\n  {tr.text(r)}\n  end')
 
     def need(self, env, v, s):
         if v not in env: self.fail(f'variable {v} not defined on every path', s)
@@ -3852,6 +4651,7 @@ class FunTx:
         if self.ctx_stack[-1] not in ('fun', 'loop', 'foldx'): self.fail('while loop inside a fold / inlined function', s)
         if s.orelse: self.fail('while-else', s)
         if self.recursive: self.fail('while loop in a recursive function (its fuel counts nested calls)', s)
+        if self.has_return(s.body) and self.key in CHECKED: return self.stmt_while_returning(s, rest, env, cont, ret)      # round 6
         if self.has_return(s.body): self.fail('return inside a while loop', s)
         for x in ast.walk(s.test):
             if isinstance(x, (ast.NamedExpr, ast.Lambda, ast.ListComp, ast.Await, ast.Yield)): self.fail('while test too complex', s)
@@ -3948,6 +4748,98 @@ class FunTx:
             return self.retext(r, f'match {call} with\n  | None => None\n  | Some (Raises e_) => {self.raise_text("e_")}\n  | Some (Returns {pat}) =>\n  {tr.text(r)}\n  end')
         return self.retext(r, f'match {call} with\n  | None => None\n  | Some {pat} =>\n  {tr.text(r)}\n  end')
 
+    def stmt_while_returning(self, s, rest, env, cont, ret):
+        """round 6: `while True: body`, the last statement of the function, only ever left by `return` (no break / continue): a fuelled
+        Fixpoint whose result IS the result of the function
+
+            Fixpoint <fn>_loop<k> {T} (O : Ops T) [(fuel0 : nat)] (fuel : nat) <captured> <carried> {struct fuel} : <result type of the function> :=
+              match fuel with 0 => None | S fuel_ => <body>; <fn>_loop<k> O [fuel0] fuel_ <captured> <carried'> end.
+
+        `return e` is the function's own return (Some (Returns e) / Some e), an operation that raises is Some (Raises ..); falling off
+        the end of the body is the recursive call.  In a ZINT function a carried variable initialised with an int literal is a Z (a
+        float once the body assigns it one)."""
+        tr = self.tr
+        if self.ctx_stack[-1] != 'fun' or self.pure_depth: self.fail('a while loop with return elsewhere than at statement level of the function body', s)
+        if s.orelse: self.fail('while-else', s)
+        if not (isinstance(s.test, ast.Constant) and s.test.value is True): self.fail('a while loop with return whose test is not the constant True', s)
+        def own_exit(x):
+            if isinstance(x, (ast.Break, ast.Continue)): return True
+            if isinstance(x, (ast.For, ast.While)): return False
+            return any(own_exit(c) for c in ast.iter_child_nodes(x))
+        if any(own_exit(b) for b in s.body): self.fail('break / continue in a while loop with return', s)
+        if rest: self.fail('code after a `while True:` loop that is only left by return', s)
+        if s not in self.fd.body: self.fail('a while loop with return that is not a statement of the function body itself', s)
+        k = self.loop_ids.setdefault(id(s), len(self.loop_ids) + 1)
+        lname = f'{self.cname}_loop{k}'
+        budget = self.budget()
+        names = self.assigned(s.body, env)
+        carried = [v for v in names if v in env]
+        if not carried: self.fail('while loop that carries no variable', s)
+        inits = [self.need(env, v, s) for v in carried]
+        tys = [('Z' if (a.ty == 'I' and self.zint) else tr.rtype(a)) for a in inits]
+        e1, cparams = {}, []
+        for nm in sorted((self.loads([s]) & set(env)) - set(carried)):
+            v = env[nm]
+            if v.ty in ('K', 'I'): e1[nm] = v; continue
+            if v.tx is None or not (isinstance(v.ty, tuple) or v.ty in ('S', 'B', 'P', 'M', 'BB', 'Z') or v.ty in SEGN):
+                self.fail(f'while loop captures {nm}, a {v.ty!r}', s)
+            pn = 'self_' if nm == 'self' else 'v_' + nm
+            e1[nm] = Val(v.ty, pn); cparams.append((pn, v.ty, v.tx))
+        open_ty = mtype(self.effects, '?')
+
+        def attempt(tys):
+            e = dict(e1)
+            for nm, t in zip(carried, tys): e[nm] = Val(t, 'v_' + nm)
+            seen = []
+            def again(e2):
+                vals = [self.need(e2, v, s) for v in carried]
+                seen.append([('Z' if (x.ty == 'I' and t == 'Z') else tr.rtype(x)) for x, t in zip(vals, tys)])
+                texts = [self.as_type(x, t, s) if (tmatch(tr.rtype(x), t) is not None or (x.ty == 'I' and t in ('Z', 'S'))) else '_' for x, t in zip(vals, tys)]
+                return Val(open_ty, f'({lname} O @FUEL0@fuel_ ' + ' '.join([p for p, _, _ in cparams] + texts) + ')')
+            self.loop_stack.append(None); self.ctx_stack.append('loop'); self.fuel_names.append('fuel0'); self.fuel_used.append(False)
+            self.loop_flags.append({'exc': False})
+            try:
+                body = self.with_live(carried, lambda: self.block(s.body, e, again, ret))
+                used = self.fuel_used[-1]
+            finally:
+                self.loop_stack.pop(); self.ctx_stack.pop(); self.fuel_names.pop(); self.fuel_used.pop(); self.loop_flags.pop()
+            return body, tr.text(body).replace('@FUEL0@', 'fuel0 ' if used else ''), used, seen
+
+        for _ in range(4):
+            saved = (self.counter, tr.counter, len(self.pending))
+            self.trial += 1
+            try: _, _, _, seen = attempt(tys)
+            finally: self.trial -= 1
+            self.counter, tr.counter = saved[0], saved[1]; del self.pending[saved[2]:]
+            new = list(tys)
+            for row in seen:
+                for i, t in enumerate(row):
+                    m = tmatch(new[i], t)
+                    if m is None and new[i] == 'Z' and t == 'S' and inits[i].ty == 'I': m = 'S'      # an int variable that the body makes a float
+                    if m is None and new[i] == 'S' and t == 'Z' and inits[i].ty == 'I': m = 'S'
+                    if m is None: self.fail(f'while loop changes the type of {carried[i]}: {new[i]!r} / {t!r}', s)
+                    new[i] = m
+            if new == tys: break
+            tys = new
+        else:
+            self.fail('types of the carried variables do not settle', s)
+        def unresolved(t): return t == '?' or (isinstance(t, tuple) and any(unresolved(x) for x in (t[1] if t[0] == 'T' else t[1:])))
+        if any(unresolved(t) for t in tys): self.fail(f'cannot infer the types of the carried variables {carried}: {tys!r}', s)
+        body, text, used, _ = attempt(tys)
+        rty = tr.rtype(body)
+        if is_mtype(rty) is None or is_mtype(rty)[0] != set(self.effects) or unresolved(rty): self.fail(f'a while loop with return of type {rty!r}', s)
+        params = ''.join(f' ({p} : {coqty(t)})' for p, t, _ in cparams) + ''.join(f' (v_{nm} : {coqty(t)})' for nm, t in zip(carried, tys))
+        ftext = (f'(* {self.path}: {self.fd.name}, the while loop at line {s.lineno} *)\n'
+                 f'Fixpoint {lname} {{T : Type}} (O : Ops T){" (fuel0 : nat)" if used else ""} (fuel : nat){params} {{struct fuel}} : {coqty(rty)} :=\n'
+                 f'  match fuel with\n  | Datatypes.O => None\n  | S fuel_ =>\n  {text}\n  end.\n')
+        if self.trial == 0:
+            if lname in tr.loops and tr.loops[lname] != ftext: self.fail('one while loop translates to two different definitions (it is reached with different environments)', s)
+            if lname not in tr.loops:
+                tr.loops[lname] = ftext
+                tr.out[self.file].append(ftext)
+        call = f'({lname} O {budget + " " if used else ""}{budget} ' + ' '.join([tx for _, _, tx in cparams] + [self.as_type(a, t, s) for a, t in zip(inits, tys)]) + ')'
+        return Val(rty, call)
+
     def loop_test(self, s, e, body_k, exit_k):
         """the test of a while loop: plain, or `len(X) > 0 [and rest]` / `X [and rest]` on a dynamic list variable X"""
         test = s.test
@@ -4023,10 +4915,71 @@ class FunTx:
             nv = Val(xv.ty, f'(map (fun x_ => {self.as_type(v, xv.ty[1], s)}) {xv.tx})')
         return self.bind(X, nv, env, lambda e: self.block(rest, e, cont, ret))
 
+    def zip_update_idiom(self, s, rest, env, cont, ret):
+        """round 6:  for i in range(0, len(A)): B[i] = E     A, B two different dynamic list variables; E mentions i, A and B only as A[i] and B[i]
+        and may consume fuel / raise (at statement level of a function declared with 'exc'):
+
+            match zip_update[_option]_outcome (fun a b => <E, ending in Returns ..>) A B with .. | Returns B' => <the rest, B rebound> end
+
+        Iteration i reads A[i] (always in range) and B[i] -- IndexError when B is shorter than A -- and replaces B[i]; the items of B beyond
+        len(A) stay.  The first iteration that fails ends the loop.  Returns None when s is not of this shape."""
+        import copy
+        tr = self.tr
+        if s.orelse or len(s.body) != 1 or not isinstance(s.body[0], ast.Assign) or len(s.body[0].targets) != 1 or not isinstance(s.target, ast.Name): return None
+        a_, i = s.body[0], s.target.id
+        tg = a_.targets[0]
+        if not (isinstance(tg, ast.Subscript) and isinstance(tg.value, ast.Name) and isinstance(tg.slice, ast.Name) and tg.slice.id == i): return None
+        B = tg.value.id
+        it = s.iter
+        if 'range' in env or 'len' in env or 'range' in self.localfuns or 'len' in self.localfuns: return None
+        if not (isinstance(it, ast.Call) and isinstance(it.func, ast.Name) and it.func.id == 'range' and not it.keywords): return None
+        ar = it.args
+        if len(ar) == 2 and isinstance(ar[0], ast.Constant) and type(ar[0].value) is int and ar[0].value == 0: ar = ar[1:]
+        if not (len(ar) == 1 and isinstance(ar[0], ast.Call) and isinstance(ar[0].func, ast.Name) and ar[0].func.id == 'len' and not ar[0].keywords
+                and len(ar[0].args) == 1 and isinstance(ar[0].args[0], ast.Name)): return None
+        A = ar[0].args[0].id
+        if A == B or A == i or B == i or A not in env or B not in env: return None
+        def dyn(v): return isinstance(v.ty, tuple) and v.ty[0] == 'L' and v.ty[1] != '?' and v.tx is not None
+        if not (dyn(env[A]) and dyn(env[B])): return None
+        if 'exc' not in self.effects or self.ctx_stack[-1] not in ('fun', 'foldx') or self.pure_depth: return None
+        if any(i in l for l in self.live_stack) or self.reads_free(rest, i): self.fail(f'loop variable {i} used after the loop', s)
+        ea, eb = f'{A}_at_{i}', f'{B}_at_{i}'
+        if ea in env or eb in env or any(isinstance(y, ast.Name) and y.id in (ea, eb) for y in ast.walk(self.fd)): return None
+        ok = [True]
+        class Rw(ast.NodeTransformer):
+            def visit_Subscript(self, node):
+                if isinstance(node.value, ast.Name) and node.value.id in (A, B) and isinstance(node.ctx, ast.Load) and isinstance(node.slice, ast.Name) and node.slice.id == i:
+                    return ast.copy_location(ast.Name(id=ea if node.value.id == A else eb, ctx=ast.Load()), node)
+                return self.generic_visit(node)
+            def visit_Name(self, node):
+                if node.id in (A, B, i): ok[0] = False
+                return node
+        E = Rw().visit(copy.deepcopy(a_.value)); ast.fix_missing_locations(E)
+        if not ok[0]: return None
+        ta, tb = env[A].ty[1], env[B].ty[1]
+        e2 = dict(env); e2[ea] = Val(ta, 'v_' + ea); e2[eb] = Val(tb, 'v_' + eb); e2.pop(i, None)
+        mark = len(self.pending)
+        el = self.in_ctx('foldx', lambda: self.expr(E, e2))
+        ents = self.pending[mark:]
+        del self.pending[mark:]
+        if tmatch(tr.rtype(el), tb) is None: self.fail(f'the loop changes the type of the elements of {B}: {tb!r} / {tr.rtype(el)!r}', s)
+        fuelled = 'fuel' in self.effects
+        okt = f'(Returns {self.as_type(el, tb, s)})'
+        if fuelled: okt = f'(Some {okt})'
+        body = self.in_ctx('foldx', lambda: self.wrap(ents, okt, 'foldx', s))
+        comb = 'zip_update_option_outcome' if fuelled else 'zip_update_outcome'
+        r = self.fresh('r')
+        self.push_effect({'effects': set(self.effects), 'what': 'element-wise update of a list from another one', 'kind': 'call',
+                          'text': f'({comb} (fun (v_{ea} : {coqty(ta)}) (v_{eb} : {coqty(tb)}) =>\n  {body}) {env[A].tx} {env[B].tx})', 'pat': r}, s)
+        return self.bind(B, Val(env[B].ty, r), env, lambda e: self.block(rest, e, cont, ret))
+
     def stmt_for(self, s, rest, env, cont, ret):
         tr = self.tr
         r = self.elementwise_idioms(s, rest, env, cont, ret)
         if r is not None: return r
+        if self.key in CHECKED:
+            r = self.zip_update_idiom(s, rest, env, cont, ret)      # round 6
+            if r is not None: return r
         def own_exit(x):
             if isinstance(x, (ast.Break, ast.Continue)): return True
             if isinstance(x, (ast.For, ast.While)): return False
@@ -4183,6 +5136,7 @@ class FunTx:
             def run(tys):
                 for nm, t in zip(names, tys): e1[nm] = Val(t, inner[nm])
                 return self.in_ctx('pure', lambda: self.with_live(names, lambda: self.block(s.body, e1, lambda e: Val('TUP', items=[self.need(e, v, s) for v in names]), lambda v, e: self.fail('return in fold', s))))
+            if self.key in ROUND6: tys = self.infer_append_types(names, tys, s.body, e1)      # round 6
             saved_c = (self.counter, tr.counter)
             body = None
             cand = [a.ty == 'I' for a in accs]
@@ -4218,6 +5172,31 @@ class FunTx:
             return self.retext(r, f"let {olp} := fold_left (fun {lp} v_{x} => {bt}) {it.tx} {init} in\n  {tr.text(r)}")
         self.fail(f'for over {it.ty!r}', s)
 
+    def infer_append_types(self, names, tys, body, e1):
+        """round 6: the element type of an accumulator that starts as `[]`, from the first `<acc>.append(<e>)` in the loop body whose
+        argument has a type in the loop's environment"""
+        tr = self.tr
+        out = list(tys)
+        for i, (nm, t) in enumerate(zip(names, tys)):
+            if t != ('L', '?'): continue
+            if (self.key, nm) in ACC_TYPES: out[i] = ACC_TYPES[(self.key, nm)]; continue
+            for st in body:
+                for x in ast.walk(st):
+                    if isinstance(x, ast.Call) and isinstance(x.func, ast.Attribute) and x.func.attr == 'append' and isinstance(x.func.value, ast.Name) \
+                            and x.func.value.id == nm and len(x.args) == 1 and not x.keywords and out[i] == ('L', '?'):
+                        saved = (self.counter, tr.counter, len(self.pending))
+                        self.trial += 1
+                        try:
+                            v = self.purely(lambda: self.expr(x.args[0], e1))
+                            et = tr.rtype(v)
+                            if et in SEGN and self.key in CLIP_FUNS: et = 'SEG'      # (a list that collects segments: of mixed classes)
+                            if et != '?' and not (isinstance(et, tuple) and '?' in et): out[i] = ('L', et)
+                        except Untranslatable: pass
+                        finally:
+                            self.trial -= 1
+                            self.counter, tr.counter = saved[0], saved[1]; del self.pending[saved[2]:]
+        return out
+
     def fold_loop(self, s, rest, env, e1, targets, xpat, it, cont, ret):
         """`for <targets> in <dynamic list>` without return, as fold_left over the variables assigned in the body.  A variable
         that does not exist before the loop is local to one iteration (it must not be read after the loop)."""
@@ -4233,6 +5212,7 @@ class FunTx:
         accs = [self.need(env, v, s) for v in names]
         tys = [tr.rtype(a) for a in accs]
         inner = {nm: self.fresh('v_' + nm) for nm in names}
+        if self.key in ROUND6: tys = self.infer_append_types(names, tys, s.body, e1)      # round 6
         for nm, t in zip(names, tys): e1[nm] = Val(t, inner[nm])
         body = self.in_ctx('pure', lambda: self.with_live(names, lambda: self.block(s.body, e1, lambda e: Val('TUP', items=[self.need(e, v, s) for v in names]), lambda v, e: self.fail('return in fold', s))))
         if body.ty == 'TUP':
@@ -4279,7 +5259,12 @@ class FunTx:
         """may the statements read the variable v as it is on entry?  A read after a definite assignment at the same or an outer
         level of the statement list (`v = e` with e not reading v; both branches of an if), or inside the body of a `for v in ..`,
         is not one.  Conservative: every other Load of the name counts (nested functions and lambdas included)."""
-        def loads(x): return any(isinstance(y, ast.Name) and y.id == v and isinstance(y.ctx, ast.Load) for y in ast.walk(x))
+        def loads(x):
+            if isinstance(x, (ast.ListComp, ast.GeneratorExp, ast.SetComp)) and self.key in ROUND6 and x.generators \
+                    and any(isinstance(y, ast.Name) and y.id == v for y in ast.walk(x.generators[0].target)):
+                return loads(x.generators[0].iter)      # round 6: the comprehension binds v itself: only its first iterable sees the incoming v
+            if isinstance(x, ast.Name): return x.id == v and isinstance(x.ctx, ast.Load)
+            return any(loads(c) for c in ast.iter_child_nodes(x))
         def mentions(x): return any(isinstance(y, ast.Name) and y.id == v for y in ast.walk(x))
         def binds(t): return any(isinstance(y, ast.Name) and y.id == v for y in ast.walk(t))
         def block(sts):
@@ -4308,6 +5293,7 @@ class FunTx:
                 a, b = block(st.body), block(st.orelse)
                 if a == 'read' or b == 'read': return 'read'
                 return 'assigned' if a == 'assigned' and b == 'assigned' else None
+            if self.key in ROUND6 and not loads(st) and not any(isinstance(y, ast.Name) and y.id == v and isinstance(y.ctx, (ast.Store, ast.Del)) for y in ast.walk(st) if not isinstance(y, ast.comprehension)): return None
             return 'read' if mentions(st) else None
         return block(stmts) == 'read'
 
@@ -4338,11 +5324,15 @@ class FunTx:
             for v in ub: env[v] = Val(('U', '?'), 'None'); e1[v] = env[v]
             names = [v for v in self.assigned(s.body, env) if v in names or v in ub]
         if not names: self.fail('a loop whose body may raise and that carries no variable', s)
-        accs = [self.need(env, v, s) for v in names]
+        # round 6: a list literal of fixed shape whose items the body updates one by one is carried as the tuple of its items
+        flshape = {v: self.fl_tuple_type(env[v]) for v in names if env[v].ty == 'FL' and self.fixed_list_shape(v) is not None and self.fl_tuple_type(env[v]) is not None}
+        accs = [env[v] if v in flshape else self.need(env, v, s) for v in names]
         def acc_type(v):
             # round 4: an accumulator that starts as None is an Optional of what the body assigns to it
             if v.ty == 'K' and v.const is None: return ('O', '?')
             if v.ty == 'TUP': return ('T', tuple(acc_type(i) for i in v.items))
+            if v.ty == 'I' and self.zint: return 'Z'      # round 6 (ZINT)
+            if v.ty == 'FL' and self.fl_tuple_type(v) is not None and flshape: return self.fl_tuple_type(v)
             return tr.rtype(v)
         def absorb(t, u):
             m = tmatch(t, u)
@@ -4362,13 +5352,15 @@ class FunTx:
             return False
 
         def attempt(tys, final):
-            inner = {nm: self.fresh('v_' + nm) for nm in names}
+            inner = {nm: self.fresh('v_' + nm) for nm in names if nm not in flshape}
             e = dict(e1)
-            for nm, t in zip(names, tys): e[nm] = Val(t, inner[nm])
+            for nm, t in zip(names, tys):
+                if nm in flshape: e[nm], inner[nm] = self.fl_fresh(flshape[nm], 'v_' + nm)
+                else: e[nm] = Val(t, inner[nm])
             rty = mtype(self.effects, ('T', tuple(tys)) if len(tys) > 1 else tys[0])
             seen = []
             def done(e2):
-                vals = [self.need(e2, v, s) for v in names]
+                vals = [e2[v] if v in flshape else self.need(e2, v, s) for v in names]
                 seen.append(vals)
                 texts = [self.as_type(x, t, s) if final else '_' for x, t in zip(vals, tys)]
                 return Val(rty, ok('(' + ', '.join(texts) + ')' if len(texts) > 1 else texts[0]))
@@ -4390,6 +5382,7 @@ class FunTx:
                 for i, x in enumerate(row):
                     if x.tx is not None and x.tx == inner[names[i]]: continue
                     m = absorb(new[i], acc_type(x))
+                    if m is None and self.zint and accs[i].ty == 'I' and {new[i], acc_type(x)} == {'Z', 'S'}: m = 'S'      # round 6: an int variable that the body makes a float
                     if m is None: self.fail(f'loop changes the type of {names[i]}: {new[i]!r} / {tr.rtype(x)!r}', s)
                     new[i] = m
             if new == tys: break
@@ -4405,8 +5398,10 @@ class FunTx:
         e2 = dict(env)
         opat = None
         for nm, t in zip(names, tys):
-            fn = self.fresh('v_' + nm)
-            e2[nm] = Val(t, fn)
+            if nm in flshape: e2[nm], fn = self.fl_fresh(flshape[nm], 'v_' + nm)
+            else:
+                fn = self.fresh('v_' + nm)
+                e2[nm] = Val(t, fn)
             opat = fn if opat is None else f'({opat}, {fn})'
         r = self.block(rest, e2, cont, ret)
         if r.ty == 'K' and r.const is None: self.fail('a loop that may raise on a path that returns None', s)
@@ -4622,6 +5617,14 @@ TARGETS += CURVECURVE_TARGETS + MINDIST_TARGETS + WINDING_TARGETS
 PATHOPS_TARGETS = [('BezierPath', 'flatten'), ('BezierPath', 'getSelfIntersections'), ('BezierPath', 'distanceToPath'),
                    ('BezierPath', 'signed_area'), ('BezierPath', 'area'), ('BezierPath', 'direction')]
 TARGETS += PATHOPS_TARGETS
+# round 6: the whole curve fitter (appended to Gen/Fit.v after the definitions of the first round)
+FIT6_TARGETS = [('CurveFit', n) for n in ('fitLine', '_leftTangent', '_rightTangent', 'centerTangent', 'leftTangent', 'rightTangent', 'estimateLengths',
+                                          'generateBezier', 'newtonRaphsonFind', 'reparameterize', 'computeMaxError', '_fitCurve', 'fitCurve')] + [('BezierPath', 'fromPoints')]
+TARGETS += FIT6_TARGETS
+# round 6: the Boolean-operation glue (Gen/Clip.v); Segment.__eq__ for the nine pairs of classes
+CLIP_TARGETS = [(c, '__eq__', (('ty', t),)) for c in ('Line', 'QuadraticBezier', 'CubicBezier') for t in ('seg2', 'seg3', 'seg4')] + \
+               [('BezierPath', n) for n in ('clip', 'union', 'intersection', 'difference')]
+TARGETS += CLIP_TARGETS
 
 # fixed text at the top of a generated file: the types and list helpers the effectful definitions are written with
 PRELUDE = {'Sample': '''(* A function with a data-dependent `while` loop takes [fuel : nat] -- the number of iterations EVERY loop invocation may
@@ -4631,7 +5634,11 @@ PRELUDE = {'Sample': '''(* A function with a data-dependent `while` loop takes [
 Inductive pyexc : Set := PyIndexError | PyValueError | PyOverflowError
   | PyAssertionError   (* a failing `assert` (the interpreter is not run with -O) *)
   | PyNoneError        (* None where an object is needed: CPython raises AttributeError or TypeError, the model does not say which *)
-  | PyUnboundLocalError.  (* a local variable read before any assignment to it has been executed *)
+  | PyUnboundLocalError   (* a local variable read before any assignment to it has been executed *)
+  | PyZeroDivisionError   (* round 6: only raised by the definitions written with checked arithmetic (Gen/Fit.v, Gen/Clip.v) *)
+  | PyTypeError           (* round 6: None as an operand of list + *)
+  | PyConvertError        (* round 6: pyclipper's conversion of a coordinate to an int fails (the abstract toZ is None) *)
+  | PyClipperError.       (* round 6: pyclipper.ClipperException (the abstract clipper is None) *)
 Inductive outcome (A : Type) : Type := Returns (a : A) | Raises (e : pyexc).
 Arguments Returns {A}. Arguments Raises {A}.
 (* l[-1]; None = IndexError *)
@@ -4756,6 +5763,59 @@ Fixpoint fold_option {A B : Type} (f : A -> B -> option A) (l : list B) (a : A) 
 
 '''}
 
+PRELUDE['Fit'] = '''(* utils/curvefitter.py.  B0..B3, computeHook, estimateBi and chordLengthParameterize are the definitions of the first round (division is
+   the total [dvd]).  The rest of the fitter (round 6) is written with CHECKED arithmetic: a division whose divisor is neither a non-zero
+   literal nor guarded by the enclosing test is [Raises PyZeroDivisionError] on zero, math.sqrt is [Raises PyValueError] below zero, None
+   as an operand of list + is [Raises PyTypeError]; computeHook / chordLengthParameterize are translated once more that way (suffix _zd).
+   [fuel]: the iterations every `while` loop invocation may use; [depth]: the nested calls of _fitCurve still allowed. *)
+(* for i in range(0, len(la)): lb[i] = f(la[i], lb[i]) -- IndexError when lb is the shorter one; the first failing step ends the loop *)
+Fixpoint zip_update_outcome {A B : Type} (f : A -> B -> outcome B) (la : list A) (lb : list B) : outcome (list B) :=
+  match la, lb with
+  | [], _ => Returns lb
+  | _ :: _, [] => Raises PyIndexError
+  | a :: ra, b :: rb => match f a b with
+                        | Raises e => Raises e
+                        | Returns b' => match zip_update_outcome f ra rb with Raises e => Raises e | Returns r => Returns (b' :: r) end
+                        end
+  end.
+Fixpoint zip_update_option_outcome {A B : Type} (f : A -> B -> option (outcome B)) (la : list A) (lb : list B) : option (outcome (list B)) :=
+  match la, lb with
+  | [], _ => Some (Returns lb)
+  | _ :: _, [] => Some (Raises PyIndexError)
+  | a :: ra, b :: rb => match f a b with
+                        | None => None
+                        | Some (Raises e) => Some (Raises e)
+                        | Some (Returns b') => match zip_update_option_outcome f ra rb with
+                                               | None => None
+                                               | Some (Raises e) => Some (Raises e)
+                                               | Some (Returns r) => Some (Returns (b' :: r))
+                                               end
+                        end
+  end.
+
+'''
+PRELUDE['Clip'] = '''(* utils/booleanoperationsmixin.py: BooleanOperationsMixin.clip / union / intersection / difference.  The module pyclipper is an abstract
+   parameter of the definitions, as in Hand/Clip.v: [toZ] is its int() conversion of a coordinate (None: it raises, [Raises PyConvertError]),
+   [clipper ct subject_paths clip_paths] is Execute(ct, PFT_EVENODD, PFT_EVENODD) after the AddPath calls (None: ClipperException,
+   [Raises PyClipperError]).  Paths are lists of segments; a flattened edge is a Line with its `_orig`; the reconstruction LUT is a dict
+   (association list, Gen/Split.v) keyed by pairs of Points; the paths returned are (segments, closed). *)
+Inductive clip_type : Set := Ct_intersection | Ct_union | Ct_difference | Ct_xor.      (* pyclipper.CT_INTERSECTION .. CT_XOR = 0 .. 3 *)
+Definition pair_keyeq {A B : Type} (ea : A -> A -> bool) (eb : B -> B -> bool) (a b : A * B) : bool := ea (fst a) (fst b) && eb (snd a) (snd b).
+(* the coordinates handed to AddPath, converted *)
+Definition clip_pt {T : Type} (toZ : T -> option Z) (p : T * T) : option (Z * Z) :=
+  match toZ (fst p), toZ (snd p) with Some x, Some y => Some (x, y) | _, _ => None end.
+Fixpoint clip_poly {T : Type} (toZ : T -> option Z) (l : list (T * T)) : option (list (Z * Z)) :=
+  match l with
+  | [] => Some []
+  | p :: r => match clip_pt toZ p, clip_poly toZ r with Some v, Some q => Some (v :: q) | _, _ => None end
+  end.
+Fixpoint clip_polys {T : Type} (toZ : T -> option Z) (l : list (list (T * T))) : option (list (list (Z * Z))) :=
+  match l with
+  | [] => Some []
+  | p :: r => match clip_poly toZ p, clip_polys toZ r with Some v, Some q => Some (v :: q) | _, _ => None end
+  end.
+
+'''
 PRELUDE['CurveCurve'] = '''(* utils/intersectionsmixin.py: the curve-curve subdivision.  [ranged]: a curved segment together with its `_range` attribute (a
    list of two numbers); a segment as its constructor made it has the range its __init__ sets, [Ranged s 0 1].  The recursion
    is a Fixpoint on [fuel], the number of nested calls still allowed ([None]: it ran out).  `"%.2f" % x` is the abstract
